@@ -11,6 +11,7 @@
      6. the handler machinery preserves any predicate that every scripted action preserves
      7. every operation preserves Inv *)
 From VT Require Export Server.Server.
+From VT Require Import Base.PyStrProofs.
 From Coq Require Import Lia.
 Open Scope N_scope.
 
@@ -654,4 +655,1553 @@ Proof.
         by (eapply keys_ok_aset_stored; eauto).
       assert (b = adel str_eqb b sid) by (eapply keys_ok_functional; eauto).
       apply (Hgone e). congruence.
+Qed.
+(* ------------------------------------------------------------------------------------ *)
+(** * 4. The manager invariant *)
+
+(* invariant of the room map of one namespace *)
+Record RmInv (lv : list str) (fr : N) (rm : roommap) : Prop := mkRmInv {
+  ri_wf : RmWf rm;
+  ri_ne : rm <> [];
+  (* every member of any room is a member of the namespace (room None) with the same transport *)
+  ri_sub : forall room sid eio, rmem rm room sid eio -> rmem rm PNone sid eio;
+  (* one session id per transport in a namespace *)
+  ri_inj : forall s1 s2 e, rmem rm PNone s1 e -> rmem rm PNone s2 e -> s1 = s2;
+  ri_live : forall room sid eio, rmem rm room sid eio -> In eio lv;
+  ri_fresh : forall room sid eio, rmem rm room sid eio -> exists k, k < fr /\ sid = sid_name k
+}.
+
+Record MInv (lv : list str) (fr : N) (m : mgr) : Prop := mkMInv {
+  mi_keys : keys_ok str_eqb (rooms m);
+  mi_ns : forall ns rm, ns_rooms m ns = Some rm -> ns <> [] /\ RmInv lv fr rm;
+  mi_cbkeys : keys_ok str_eqb (callbacks m);
+  mi_cb : forall sid, In sid (map fst (callbacks m)) ->
+                      exists ns rm e, ns_rooms m ns = Some rm /\ rmem rm PNone sid e
+}.
+
+Lemma MInv_init lv fr : MInv lv fr mgr_init.
+Proof. split; cbn; auto; try discriminate. intros sid []. Qed.
+
+Lemma RmInv_mono lv lv' fr fr' rm :
+  (forall e, In e lv -> In e lv') -> fr <= fr' -> RmInv lv fr rm -> RmInv lv' fr' rm.
+Proof.
+  intros Hl Hf [H1 H2 H3 H4 H5 H6]. split; auto.
+  - intros room sid eio H. apply Hl. eauto.
+  - intros room sid eio H. destruct (H6 _ _ _ H) as (k & Hk & ->). exists k. split; [lia|reflexivity].
+Qed.
+
+Lemma MInv_mono lv lv' fr fr' m :
+  (forall e, In e lv -> In e lv') -> fr <= fr' -> MInv lv fr m -> MInv lv' fr' m.
+Proof.
+  intros Hl Hf [H1 H2 H3 H4]. split; auto.
+  intros ns rm H. destruct (H2 _ _ H). split; [auto|]. eapply RmInv_mono; eauto.
+Qed.
+
+Lemma MInv_ext lv fr m m' : rooms m' = rooms m -> callbacks m' = callbacks m -> MInv lv fr m -> MInv lv fr m'.
+Proof.
+  intros Hr Hc [H1 H2 H3 H4]. unfold ns_rooms in *. split; unfold ns_rooms; rewrite ?Hr, ?Hc; auto.
+Qed.
+
+(* replace the room map of one namespace; an empty room map removes the namespace *)
+Definition ns_put (m : mgr) (ns : str) (rm' : roommap) : mgr :=
+  match rm' with
+  | [] => set_rooms m (adel str_eqb (rooms m) ns)
+  | _ :: _ => set_rooms m (aset str_eqb (rooms m) ns rm')
+  end.
+
+Lemma ns_put_nonnil m ns rm' : rm' <> [] -> ns_put m ns rm' = set_rooms m (aset str_eqb (rooms m) ns rm').
+Proof. destruct rm'; [contradiction|reflexivity]. Qed.
+
+Lemma set_rooms_same m : set_rooms m (rooms m) = m.
+Proof. destruct m; reflexivity. Qed.
+
+Lemma ns_put_same m ns rm : ns_rooms m ns = Some rm -> rm <> [] -> ns_put m ns rm = m.
+Proof.
+  intros H Hne. rewrite ns_put_nonnil by auto. unfold ns_rooms in H. rewrite (aset_same _ _ _ _ H).
+  apply set_rooms_same.
+Qed.
+
+Lemma ns_put_pending m ns rm' : pending (ns_put m ns rm') = pending m.
+Proof. destruct rm'; reflexivity. Qed.
+Lemma ns_put_callbacks m ns rm' : callbacks (ns_put m ns rm') = callbacks m.
+Proof. destruct rm'; reflexivity. Qed.
+
+Lemma ns_rooms_ns_put m ns rm' ns0 : keys_ok str_eqb (rooms m) ->
+  ns_rooms (ns_put m ns rm') ns0 =
+  if str_eqb ns0 ns then (match rm' with [] => None | _ :: _ => Some rm' end) else ns_rooms m ns0.
+Proof.
+  intros Hk. unfold ns_rooms. destruct (str_eqb ns0 ns) eqn:E.
+  - apply str_eqb_eq in E. subst. destruct rm'; cbn [ns_put set_rooms rooms].
+    + apply (xaget_adel_eq _ str_eqb_eq). exact Hk.
+    + apply (xaget_aset_eq _ str_eqb_eq).
+  - assert (ns0 <> ns) by (intros ->; rewrite str_eqb_refl in E; discriminate).
+    destruct rm'; cbn [ns_put set_rooms rooms].
+    + apply (xaget_adel_neq _ str_eqb_eq). auto.
+    + apply (xaget_aset_neq _ str_eqb_eq). auto.
+Qed.
+
+Lemma keys_ok_ns_put m ns rm' : keys_ok str_eqb (rooms m) -> keys_ok str_eqb (rooms (ns_put m ns rm')).
+Proof.
+  intros Hk. destruct rm'; cbn [ns_put set_rooms rooms].
+  - apply keys_ok_adel; auto.
+  - apply (xkeys_ok_aset _ str_eqb_eq); auto.
+Qed.
+
+Lemma ns_put_ns_put m ns rm1 rm2 : rm1 <> [] -> ns_put (ns_put m ns rm1) ns rm2 = ns_put m ns rm2.
+Proof.
+  intros Hne.
+  assert (Ha : forall (l : list (str * roommap)) v1 v2, aset str_eqb (aset str_eqb l ns v1) ns v2 = aset str_eqb l ns v2).
+  { induction l as [|[k v] l IH]; intros; cbn [aset].
+    - rewrite str_eqb_refl. reflexivity.
+    - destruct (str_eqb k ns) eqn:E; cbn [aset]; rewrite E; [reflexivity|]. rewrite IH. reflexivity. }
+  assert (Hd : forall (l : list (str * roommap)) v1, adel str_eqb (aset str_eqb l ns v1) ns = adel str_eqb l ns).
+  { induction l as [|[k v] l IH]; intros; cbn [aset adel].
+    - rewrite str_eqb_refl. reflexivity.
+    - destruct (str_eqb k ns) eqn:E; cbn [adel]; rewrite E; [reflexivity|]. rewrite IH. reflexivity. }
+  destruct m as [r p c]. destruct rm1; [contradiction|].
+  destruct rm2; unfold ns_put, set_rooms; cbn [rooms pending callbacks]; rewrite ?Ha, ?Hd; reflexivity.
+Qed.
+
+Lemma MInv_ns_put lv fr m ns rm' :
+  MInv lv fr m -> ns <> [] -> (rm' = [] \/ RmInv lv fr rm') ->
+  (forall sid rm e, In sid (map fst (callbacks m)) -> ns_rooms m ns = Some rm -> rmem rm PNone sid e ->
+                    exists e', rmem rm' PNone sid e') ->
+  MInv lv fr (ns_put m ns rm').
+Proof.
+  intros [H1 H2 H3 H4] Hns Hrm Hcb. split.
+  - apply keys_ok_ns_put; auto.
+  - intros ns0 rm0. rewrite ns_rooms_ns_put by auto. destruct (str_eqb ns0 ns) eqn:E.
+    + apply str_eqb_eq in E. subst. destruct rm' as [|x rm']; [discriminate|]. intros [= <-].
+      split; [auto|]. destruct Hrm as [Hrm|Hrm]; [discriminate|auto].
+    + apply H2.
+  - rewrite ns_put_callbacks. auto.
+  - intros sid. rewrite ns_put_callbacks. intros Hin.
+    destruct (H4 _ Hin) as (ns1 & rm1 & e & Hn1 & Hm1).
+    destruct (str_eqb ns1 ns) eqn:E.
+    + apply str_eqb_eq in E. subst. destruct (Hcb _ _ _ Hin Hn1 Hm1) as (e' & He').
+      exists ns, rm', e'. split; [|auto]. rewrite ns_rooms_ns_put by auto. rewrite str_eqb_refl.
+      destruct rm'; [destruct He' as (b & [] & _)|reflexivity].
+    + exists ns1, rm1, e. split; [|auto]. rewrite ns_rooms_ns_put by auto. rewrite E. auto.
+Qed.
+
+(* ---- leave_room ---- *)
+Lemma leave_room_eq m sid ns room :
+  leave_room m sid ns room =
+  match ns_rooms m ns with
+  | None => m
+  | Some rm => match rm_leave rm sid room with None => m | Some rm' => ns_put m ns rm' end
+  end.
+Proof.
+  unfold leave_room, rm_leave, ns_put. destruct (ns_rooms m ns) as [rm|]; [|reflexivity].
+  destruct (aget room_eqb rm room) as [b|]; [|reflexivity].
+  destruct (bd_get b sid); [|reflexivity]. reflexivity.
+Qed.
+
+Lemma leave_room_pending m sid ns room : pending (leave_room m sid ns room) = pending m.
+Proof.
+  rewrite leave_room_eq. destruct (ns_rooms m ns); [|reflexivity].
+  destruct (rm_leave _ _ _); [apply ns_put_pending|reflexivity].
+Qed.
+Lemma leave_room_callbacks m sid ns room : callbacks (leave_room m sid ns room) = callbacks m.
+Proof.
+  rewrite leave_room_eq. destruct (ns_rooms m ns); [|reflexivity].
+  destruct (rm_leave _ _ _); [apply ns_put_callbacks|reflexivity].
+Qed.
+
+Lemma rm_leave_none_room rm sid room rm' :
+  rm_leave rm sid room = Some rm' -> room <> PNone -> aget room_eqb rm' PNone = aget room_eqb rm PNone.
+Proof.
+  unfold rm_leave. destruct (aget room_eqb rm room) as [b|]; [|discriminate].
+  destruct (bd_get b sid); [|discriminate]. intros [= <-] Hne.
+  destruct (adel str_eqb b sid).
+  - apply aget_adel_frame. apply room_eqb_none_frame. auto.
+  - apply aget_aset_frame; [apply room_eqb_none_frame; auto|apply room_neq_none; auto].
+Qed.
+
+Lemma RmInv_some_member lv fr rm : RmInv lv fr rm -> exists s e, rmem rm PNone s e.
+Proof.
+  intros H. destruct (ri_wf _ _ _ H) as [_ Hb].
+  destruct rm as [|[r b] rm']; [destruct (ri_ne _ _ _ H); reflexivity|].
+  destruct (Hb r b (or_introl eq_refl)) as [Hbne _].
+  destruct b as [|[s e] b]; [contradiction|]. exists s, e. apply (ri_sub _ _ _ H r).
+  exists ((s, e) :: b). split; left; reflexivity.
+Qed.
+
+Lemma rmem_nonnil rm r s e : rmem rm r s e -> rm <> [].
+Proof. intros (b & Hin & _) ->. destruct Hin. Qed.
+
+Lemma RmInv_leave lv fr rm sid room rm' :
+  RmInv lv fr rm -> room <> PNone -> rm_leave rm sid room = Some rm' -> RmInv lv fr rm'.
+Proof.
+  intros H Hne Hl. destruct (rm_leave_spec _ _ _ _ (ri_wf _ _ _ H) Hl) as (Hwf & Hshr & _ & Hfr & _).
+  assert (Hnone : forall s e, rmem rm PNone s e -> rmem rm' PNone s e).
+  { intros s e Hm. apply Hfr; auto. destruct (room_eqb PNone room) eqn:E; [|reflexivity].
+    apply py_eq_none_l in E. contradiction. }
+  split; auto.
+  - destruct (RmInv_some_member _ _ _ H) as (s & e & Hm). eapply rmem_nonnil; eauto.
+  - intros r s e Hm. apply Hnone. eapply ri_sub; eauto.
+  - intros s1 s2 e Hm1 Hm2. eapply ri_inj; eauto.
+  - intros r s e Hm. eapply ri_live; eauto.
+  - intros r s e Hm. eapply ri_fresh; eauto.
+Qed.
+
+Lemma MInv_leave_room lv fr m sid ns room :
+  MInv lv fr m -> room <> PNone -> MInv lv fr (leave_room m sid ns room).
+Proof.
+  intros H Hne. rewrite leave_room_eq. destruct (ns_rooms m ns) as [rm|] eqn:Hns; [|auto].
+  destruct (rm_leave rm sid room) as [rm'|] eqn:Hl; [|auto].
+  destruct (mi_ns _ _ _ H _ _ Hns) as [Hnsne Hrm].
+  apply MInv_ns_put; auto.
+  - right. eapply RmInv_leave; eauto.
+  - intros sid0 rm0 e _ Hns0 Hm. assert (rm0 = rm) by congruence. subst. exists e.
+    destruct (rm_leave_spec _ _ _ _ (ri_wf _ _ _ Hrm) Hl) as (_ & _ & _ & Hfr & _).
+    apply Hfr; auto. destruct (room_eqb PNone room) eqn:E; [|reflexivity].
+    apply py_eq_none_l in E. contradiction.
+Qed.
+
+Definition nroom (m : mgr) (ns : str) : option bidict := room_of m ns PNone.
+
+Lemma leave_room_nroom m sid ns room ns0 :
+  keys_ok str_eqb (rooms m) -> room <> PNone -> nroom (leave_room m sid ns room) ns0 = nroom m ns0.
+Proof.
+  intros Hk Hne. rewrite leave_room_eq. destruct (ns_rooms m ns) as [rm|] eqn:Hns; [|reflexivity].
+  destruct (rm_leave rm sid room) as [rm'|] eqn:Hl; [|reflexivity].
+  unfold nroom, room_of. rewrite ns_rooms_ns_put by auto.
+  destruct (str_eqb ns0 ns) eqn:E; [|reflexivity]. apply str_eqb_eq in E. subst. rewrite Hns.
+  rewrite <- (rm_leave_none_room _ _ _ _ Hl Hne). destruct rm'; reflexivity.
+Qed.
+
+(* ---- basic_disconnect: leave every room, forget callbacks and the pending mark ---- *)
+Definition rm_leave' (rm : roommap) (sid : str) (room : pv) : roommap :=
+  match rm_leave rm sid room with Some rm' => rm' | None => rm end.
+Definition rm_leave_all (rm : roommap) (sid : str) (names : list pv) : roommap :=
+  fold_left (fun rm r => rm_leave' rm sid r) names rm.
+
+Lemma fold_leave_none m sid ns names :
+  ns_rooms m ns = None -> fold_left (fun m r => leave_room m sid ns r) names m = m.
+Proof.
+  intros H. induction names as [|r names IH]; cbn [fold_left]; [reflexivity|].
+  rewrite leave_room_eq, H. exact IH.
+Qed.
+
+Lemma rm_leave_all_nil sid names : rm_leave_all [] sid names = [].
+Proof. induction names as [|r names IH]; cbn [rm_leave_all fold_left]; [reflexivity|]. exact IH. Qed.
+
+Lemma rm_leave_all_cons rm sid r names :
+  rm_leave_all rm sid (r :: names) = rm_leave_all (rm_leave' rm sid r) sid names.
+Proof. reflexivity. Qed.
+
+Lemma fold_leave_eq sid ns names : forall m rm,
+  keys_ok str_eqb (rooms m) -> ns_rooms m ns = Some rm -> rm <> [] ->
+  fold_left (fun m r => leave_room m sid ns r) names m = ns_put m ns (rm_leave_all rm sid names).
+Proof.
+  induction names as [|r names IH]; intros m rm Hk Hns Hne.
+  - symmetry. apply ns_put_same; auto.
+  - cbn [fold_left]. rewrite rm_leave_all_cons.
+    rewrite leave_room_eq, Hns. unfold rm_leave'. destruct (rm_leave rm sid r) as [rm1|] eqn:Hl.
+    + destruct rm1 as [|x rm1].
+      * rewrite fold_leave_none.
+        -- rewrite rm_leave_all_nil. reflexivity.
+        -- rewrite ns_rooms_ns_put by auto. rewrite str_eqb_refl. reflexivity.
+      * rewrite (IH (ns_put m ns (x :: rm1)) (x :: rm1)).
+        -- apply ns_put_ns_put. discriminate.
+        -- apply keys_ok_ns_put; auto.
+        -- rewrite ns_rooms_ns_put by auto. rewrite str_eqb_refl. reflexivity.
+        -- discriminate.
+    + apply IH; auto.
+Qed.
+
+Lemma rm_leave_none rm sid room : RmWf rm -> rm_leave rm sid room = None -> forall e, ~ rmem rm room sid e.
+Proof.
+  intros [Hk Hb] Hl e (b & Hin & Hs). unfold rm_leave in Hl.
+  rewrite (keys_ok_aget _ _ _ _ Hk Hin) in Hl.
+  destruct (Hb _ _ Hin) as [_ Hkb]. unfold bd_get in Hl. rewrite (keys_ok_aget _ _ _ _ Hkb Hs) in Hl. discriminate.
+Qed.
+
+Lemma rm_leave_all_spec sid names : forall rm, RmWf rm ->
+  let rmf := rm_leave_all rm sid names in
+  RmWf rmf /\
+  (forall r s e, rmem rmf r s e -> rmem rm r s e) /\
+  (forall r s e, rmem rm r s e -> s <> sid -> rmem rmf r s e) /\
+  (forall r e, In r names -> ~ rmem rmf r sid e).
+Proof.
+  induction names as [|r0 names IH]; intros rm Hwf.
+  - cbn. split; [auto|split; [auto|split; [auto|intros r e []]]].
+  - rewrite rm_leave_all_cons. assert (H1 : RmWf (rm_leave' rm sid r0) /\
+                 (forall r s e, rmem (rm_leave' rm sid r0) r s e -> rmem rm r s e) /\
+                 (forall r s e, rmem rm r s e -> s <> sid -> rmem (rm_leave' rm sid r0) r s e) /\
+                 (forall e, ~ rmem (rm_leave' rm sid r0) r0 sid e)).
+    { unfold rm_leave'. destruct (rm_leave rm sid r0) as [rm1|] eqn:Hl.
+      - destruct (rm_leave_spec _ _ _ _ Hwf Hl) as (A & B & C & _ & D). auto.
+      - split; [auto|split; [auto|split; [auto|apply rm_leave_none; auto]]]. }
+    destruct H1 as (A & B & C & D). destruct (IH _ A) as (A' & B' & C' & D').
+    split; [auto|split; [auto|split; [auto|]]].
+    intros r e [<-|Hin]; [|auto]. intros Hm. apply (D e). auto.
+Qed.
+
+Definition rooms_with (rm : roommap) (sid : str) : list pv :=
+  map fst (filter (fun rb => match bd_get (snd rb) sid with Some _ => true | None => false end) rm).
+
+Lemma rooms_with_complete rm sid r e : RmWf rm -> rmem rm r sid e -> In r (rooms_with rm sid).
+Proof.
+  intros [Hk Hb] (b & Hin & Hs). unfold rooms_with. apply in_map_iff. exists (r, b). split; [reflexivity|].
+  apply filter_In. split; [auto|]. cbn [snd]. destruct (Hb _ _ Hin) as [_ Hkb].
+  unfold bd_get. rewrite (keys_ok_aget _ _ _ _ Hkb Hs). reflexivity.
+Qed.
+
+Lemma rm_purge_spec rm sid : RmWf rm ->
+  let rmf := rm_leave_all rm sid (rooms_with rm sid) in
+  RmWf rmf /\
+  (forall r s e, rmem rmf r s e -> rmem rm r s e /\ s <> sid) /\
+  (forall r s e, rmem rm r s e -> s <> sid -> rmem rmf r s e).
+Proof.
+  intros Hwf rmf. destruct (rm_leave_all_spec sid (rooms_with rm sid) rm Hwf) as (A & B & C & D).
+  fold rmf in A, B, C, D. split; [auto|split; [|auto]].
+  intros r s e Hm. split; [auto|]. intros ->. apply (D r e); auto. eapply rooms_with_complete; eauto.
+Qed.
+
+Lemma RmInv_purge lv fr rm sid :
+  RmInv lv fr rm -> let rmf := rm_leave_all rm sid (rooms_with rm sid) in rmf = [] \/ RmInv lv fr rmf.
+Proof.
+  intros H rmf. destruct (rm_purge_spec rm sid (ri_wf _ _ _ H)) as (A & B & C). fold rmf in A, B, C.
+  destruct rmf as [|x rmf'] eqn:E; [left; reflexivity|right]. rewrite <- E in *. split; auto.
+  - rewrite E. discriminate.
+  - intros r s e Hm. destruct (B _ _ _ Hm) as [Hm0 Hne]. apply C; auto. eapply ri_sub; eauto.
+  - intros s1 s2 e Hm1 Hm2. destruct (B _ _ _ Hm1), (B _ _ _ Hm2). eapply ri_inj; eauto.
+  - intros r s e Hm. destruct (B _ _ _ Hm). eapply ri_live; eauto.
+  - intros r s e Hm. destruct (B _ _ _ Hm). eapply ri_fresh; eauto.
+Qed.
+
+Lemma fold_leave_pending sid ns names : forall m,
+  pending (fold_left (fun m r => leave_room m sid ns r) names m) = pending m.
+Proof. induction names as [|r names IH]; intros m; cbn [fold_left]; [reflexivity|]. rewrite IH. apply leave_room_pending. Qed.
+Lemma fold_leave_callbacks sid ns names : forall m,
+  callbacks (fold_left (fun m r => leave_room m sid ns r) names m) = callbacks m.
+Proof. induction names as [|r names IH]; intros m; cbn [fold_left]; [reflexivity|]. rewrite IH. apply leave_room_callbacks. Qed.
+
+Lemma mgr_disconnect_rooms m sid ns rm : ns_rooms m ns = Some rm ->
+  rooms (mgr_disconnect m sid ns) = rooms (fold_left (fun m r => leave_room m sid ns r) (rooms_with rm sid) m).
+Proof. intros H. unfold mgr_disconnect. rewrite H. cbv zeta. destruct (is_pending _ _ _); reflexivity. Qed.
+Lemma mgr_disconnect_callbacks m sid ns rm : ns_rooms m ns = Some rm ->
+  callbacks (mgr_disconnect m sid ns) = adel str_eqb (callbacks m) sid.
+Proof.
+  intros H. unfold mgr_disconnect. rewrite H. cbv zeta.
+  destruct (is_pending _ _ _); cbn [callbacks]; rewrite (fold_leave_callbacks sid ns); reflexivity.
+Qed.
+Lemma mgr_disconnect_none m sid ns : ns_rooms m ns = None -> mgr_disconnect m sid ns = m.
+Proof. intros H. unfold mgr_disconnect. rewrite H. reflexivity. Qed.
+
+Lemma mgr_disconnect_pending_nil m sid ns : pending m = [] -> pending (mgr_disconnect m sid ns) = [].
+Proof.
+  intros H. unfold mgr_disconnect. destruct (ns_rooms m ns); [|auto]. cbv zeta.
+  unfold is_pending. cbn [pending]. rewrite !(fold_leave_pending sid ns), H. cbn [aget pending].
+  rewrite ?(fold_leave_pending sid ns); auto.
+Qed.
+Lemma mgr_disconnect_pending_one m sid ns rm :
+  ns_rooms m ns = Some rm -> pending m = [(ns, [sid])] -> pending (mgr_disconnect m sid ns) = [].
+Proof.
+  intros Hn H. unfold mgr_disconnect. rewrite Hn. cbv zeta.
+  unfold is_pending. cbn [pending]. rewrite !(fold_leave_pending sid ns), H.
+  repeat (first [rewrite str_eqb_refl | progress cbn [aget existsb orb pending remove_first adel]]). reflexivity.
+Qed.
+
+(* what basic_disconnect does to the rooms of the manager *)
+Lemma mgr_disconnect_spec lv fr m sid ns :
+  MInv lv fr m ->
+  let m' := mgr_disconnect m sid ns in
+  MInv lv fr m' /\
+  (forall ns0, ns0 <> ns -> ns_rooms m' ns0 = ns_rooms m ns0) /\
+  (forall rm' r s e, ns_rooms m' ns = Some rm' -> rmem rm' r s e ->
+                     s <> sid /\ exists rm, ns_rooms m ns = Some rm /\ rmem rm r s e) /\
+  (forall rm r s e, ns_rooms m ns = Some rm -> rmem rm r s e -> s <> sid ->
+                    exists rm', ns_rooms m' ns = Some rm' /\ rmem rm' r s e) /\
+  (forall k, In k (map fst (callbacks m')) -> In k (map fst (callbacks m))) /\
+  (ns_rooms m ns <> None -> ~ In sid (map fst (callbacks m'))).
+Proof.
+  intros H m'. destruct (ns_rooms m ns) as [rm|] eqn:Hns.
+  2:{ unfold m'. rewrite mgr_disconnect_none by auto. rewrite Hns.
+      split; [auto|split; [auto|split; [intros; discriminate|split; [intros; discriminate|split; [auto|intros Hc; contradiction]]]]]. }
+  destruct (mi_ns _ _ _ H _ _ Hns) as [Hnsne Hrm].
+  set (rmf := rm_leave_all rm sid (rooms_with rm sid)).
+  destruct (rm_purge_spec rm sid (ri_wf _ _ _ Hrm)) as (A & B & C). fold rmf in A, B, C.
+  assert (Hrooms : rooms m' = rooms (ns_put m ns rmf)).
+  { unfold m'. rewrite (mgr_disconnect_rooms _ _ _ _ Hns).
+    rewrite (fold_leave_eq sid ns _ m rm (mi_keys _ _ _ H) Hns (ri_ne _ _ _ Hrm)). reflexivity. }
+  assert (Hcbs : callbacks m' = adel str_eqb (callbacks m) sid) by (eapply mgr_disconnect_callbacks; eauto).
+  assert (Hnsr : forall ns0, ns_rooms m' ns0 = ns_rooms (ns_put m ns rmf) ns0).
+  { intros ns0. unfold ns_rooms. rewrite Hrooms. reflexivity. }
+  set (ma := mkMgr (rooms m) (pending m) (adel str_eqb (callbacks m) sid)).
+  assert (Hma : MInv lv fr ma).
+  { destruct H as [H1 H2 H3 H4]. split; auto.
+    - cbn [callbacks ma]. apply keys_ok_adel; auto.
+    - intros k Hk. cbn [callbacks ma] in Hk. apply In_adel_keys in Hk. apply H4; auto. }
+  split; [|split; [|split; [|split; [|split]]]].
+  - apply (MInv_ext lv fr (ns_put ma ns rmf)).
+    + rewrite Hrooms. destruct rmf; reflexivity.
+    + rewrite Hcbs, ns_put_callbacks. reflexivity.
+    + apply MInv_ns_put; auto.
+      * apply RmInv_purge; auto.
+      * intros k rm0 e Hk Hns0 Hm. cbn [callbacks ma] in Hk.
+        apply (xkeys_adel _ str_eqb_eq) in Hk; [|apply (mi_cbkeys _ _ _ H)]. destruct Hk as [Hne _].
+        assert (rm0 = rm) by (unfold ns_rooms in *; cbn [rooms ma] in Hns0; congruence). subst.
+        exists e. apply C; auto.
+  - intros ns0 Hne. rewrite Hnsr, ns_rooms_ns_put by (apply (mi_keys _ _ _ H)).
+    destruct (str_eqb ns0 ns) eqn:E; [apply str_eqb_eq in E; contradiction|reflexivity].
+  - intros rm' r s e Hn Hm. rewrite Hnsr, ns_rooms_ns_put in Hn by (apply (mi_keys _ _ _ H)).
+    rewrite str_eqb_refl in Hn. assert (rm' = rmf) by (destruct rmf; congruence). subst.
+    destruct (B _ _ _ Hm). split; [auto|]. exists rm. auto.
+  - intros rm0 r s e Hn Hm Hne. assert (rm0 = rm) by congruence. subst.
+    exists rmf. split; [|auto]. rewrite Hnsr, ns_rooms_ns_put by (apply (mi_keys _ _ _ H)).
+    rewrite str_eqb_refl. assert (Hm' := C _ _ _ Hm Hne). destruct rmf; [destruct Hm' as (b & [] & _)|reflexivity].
+  - intros k. rewrite Hcbs. apply In_adel_keys.
+  - intros _. rewrite Hcbs. intros Hin.
+    apply (xkeys_adel _ str_eqb_eq) in Hin; [|apply (mi_cbkeys _ _ _ H)]. destruct Hin as [Hne _]. auto.
+Qed.
+(* ---- connect ---- *)
+Ltac splits := repeat match goal with |- _ /\ _ => split end.
+
+Lemma sid_name_inj a b : sid_name a = sid_name b -> a = b.
+Proof.
+  unfold sid_name. intros [= H].
+  assert (H0 : py_int (str_of_N a) = py_int (str_of_N b)) by congruence.
+  rewrite !py_int_str_of_N in H0. congruence.
+Qed.
+
+Lemma put_member_spec m ns room sid eio m' ok :
+  put_member m ns room sid eio = (m', ok) ->
+  (m' = m /\ exists rm b s', ns_rooms m ns = Some rm /\ aget room_eqb rm room = Some b /\
+                             bd_inv b eio = Some s' /\ ok = str_eqb s' sid) \/
+  (ok = true /\ exists rm b,
+      (ns_rooms m ns = Some rm \/ (ns_rooms m ns = None /\ rm = [])) /\
+      (aget room_eqb rm room = Some b \/ (aget room_eqb rm room = None /\ b = [])) /\
+      bd_inv b eio = None /\
+      m' = set_rooms m (aset str_eqb (rooms m) ns (aset room_eqb rm room (aset str_eqb b sid eio)))).
+Proof.
+  unfold put_member, bd_put.
+  set (rm := match ns_rooms m ns with Some rm => rm | None => [] end).
+  set (b := match aget room_eqb rm room with Some b => b | None => [] end).
+  assert (Hrm : ns_rooms m ns = Some rm \/ (ns_rooms m ns = None /\ rm = [])).
+  { unfold rm. destruct (ns_rooms m ns); auto. }
+  assert (Hb : aget room_eqb rm room = Some b \/ (aget room_eqb rm room = None /\ b = [])).
+  { unfold b. destruct (aget room_eqb rm room); auto. }
+  destruct (bd_inv b eio) as [s'|] eqn:Hinv.
+  - (* the transport already has an entry in this room: nothing changes *)
+    assert (Hb' : aget room_eqb rm room = Some b).
+    { destruct Hb as [Hb|[_ Hb]]; [auto|]. rewrite Hb in Hinv. discriminate. }
+    assert (Hrm' : ns_rooms m ns = Some rm).
+    { destruct Hrm as [Hrm|[_ Hrm]]; [auto|]. rewrite Hrm in Hb'. discriminate. }
+    assert (Hsame : set_rooms m (aset str_eqb (rooms m) ns (aset room_eqb rm room b)) = m).
+    { rewrite (aset_same _ _ _ _ Hb'). unfold ns_rooms in Hrm'. rewrite (aset_same _ _ _ _ Hrm'). apply set_rooms_same. }
+    intros H. left. destruct (str_eqb s' sid) eqn:E; inversion H; subst; (split; [auto|]);
+      exists rm, b, s'; auto.
+  - intros [= <- <-]. right. split; [reflexivity|]. exists rm, b. auto.
+Qed.
+
+Lemma set_rooms_aset_twice m ns rm1 rm2 :
+  set_rooms (set_rooms m (aset str_eqb (rooms m) ns rm1))
+            (aset str_eqb (rooms (set_rooms m (aset str_eqb (rooms m) ns rm1))) ns rm2) =
+  set_rooms m (aset str_eqb (rooms m) ns rm2).
+Proof.
+  destruct m as [r p c]. unfold set_rooms. cbn [rooms pending callbacks]. f_equal.
+  induction r as [|[k v] l IH]; cbn [aset].
+  - rewrite str_eqb_refl. reflexivity.
+  - destruct (str_eqb k ns) eqn:E; cbn [aset]; rewrite E; [reflexivity|]. rewrite IH. reflexivity.
+Qed.
+
+Lemma RmWf_of lv fr m ns rm : MInv lv fr m -> (ns_rooms m ns = Some rm \/ (ns_rooms m ns = None /\ rm = [])) -> RmWf rm.
+Proof.
+  intros H [Hn|[_ ->]]; [|apply RmWf_nil]. destruct (mi_ns _ _ _ H _ _ Hn) as [_ Hr]. apply (ri_wf _ _ _ Hr).
+Qed.
+
+(* the members of the namespace after a connect: the old ones and the new session id *)
+Lemma mgr_connect_spec lv fr m eio ns :
+  MInv lv fr m -> In eio lv -> ns <> [] ->
+  let sid := sid_name fr in
+  let m' := fst (mgr_connect m eio ns sid) in
+  MInv lv (fr + 1) m' /\ pending m' = pending m /\ callbacks m' = callbacks m /\
+  (forall ns0, ns0 <> ns -> ns_rooms m' ns0 = ns_rooms m ns0) /\
+  (snd (mgr_connect m eio ns sid) = None -> m' = m) /\
+  (snd (mgr_connect m eio ns sid) = None \/ snd (mgr_connect m eio ns sid) = Some sid) /\
+  (snd (mgr_connect m eio ns sid) = Some sid ->
+   exists rm', ns_rooms m' ns = Some rm' /\ rmem rm' PNone sid eio /\
+     (forall r s e, rmem rm' r s e ->
+        (s = sid /\ e = eio) \/ (s <> sid /\ exists rm, ns_rooms m ns = Some rm /\ rmem rm r s e)) /\
+     (forall rm r s e, ns_rooms m ns = Some rm -> rmem rm r s e -> rmem rm' r s e)).
+Proof.
+  intros H Hlive Hns sid m'.
+  assert (Hmono : MInv lv (fr + 1) m) by (eapply MInv_mono; eauto; lia).
+  unfold m'. unfold mgr_connect.
+  destruct (put_member m ns PNone sid eio) as [m1 ok1] eqn:Hp1.
+  apply put_member_spec in Hp1 as [(-> & rm & b & s' & Hn & Hg & Hi & ->)|(-> & rm & b & Hrm & Hb & Hinv & ->)].
+  - (* this transport is already connected to the namespace *)
+    assert (Hs' : s' <> sid).
+    { destruct (mi_ns _ _ _ H _ _ Hn) as [_ Hr].
+      assert (Hm : rmem rm PNone s' eio).
+      { apply rmem_none_iff; [apply (ri_wf _ _ _ Hr)|]. exists b. split; [auto|].
+        apply bd_inv_In in Hi. apply aget_In in Hg as (k' & Hin & _).
+        destruct (ri_wf _ _ _ Hr) as [_ Hbb]. destruct (Hbb _ _ Hin) as [_ Hkb]. apply keys_ok_aget; auto. }
+      destruct (ri_fresh _ _ _ Hr _ _ _ Hm) as (k & Hk & ->). intros E. apply sid_name_inj in E. lia. }
+    rewrite (eqb_neq _ str_eqb_eq _ _ Hs'). cbn [fst snd].
+    splits; auto. discriminate.
+  - set (rm1 := aset room_eqb rm PNone (aset str_eqb b sid eio)).
+    assert (Hwf : RmWf rm) by (eapply RmWf_of; eauto).
+    destruct (rmem_put rm PNone b sid eio Hwf room_eqb_none_refl Hb) as (W1 & A1 & B1 & C1 & D1). fold rm1 in W1, A1, B1, C1, D1.
+    set (m1 := set_rooms m (aset str_eqb (rooms m) ns rm1)).
+    assert (Hn1 : ns_rooms m1 ns = Some rm1).
+    { unfold ns_rooms, m1. cbn [set_rooms rooms]. apply (xaget_aset_eq _ str_eqb_eq). }
+    destruct (put_member m1 ns (PStr sid) sid eio) as [m2 ok2] eqn:Hp2. cbn [fst snd].
+    assert (Hsidrefl : room_eqb (PStr sid) (PStr sid) = true) by (cbn; apply str_eqb_refl).
+    (* the room map of the namespace at the end *)
+    assert (Hfin : exists rm2, m2 = set_rooms m (aset str_eqb (rooms m) ns rm2) /\ RmWf rm2 /\
+              (forall r s e, rmem rm2 r s e -> rmem rm1 r s e \/ (s = sid /\ e = eio)) /\
+              (forall r s e, rmem rm1 r s e -> room_eqb r (PStr sid) = false \/ s <> sid -> rmem rm2 r s e)).
+    { apply put_member_spec in Hp2 as [(-> & _)|(_ & rm' & b2 & Hrm' & Hb2 & Hinv2 & ->)].
+      - exists rm1. splits; auto.
+      - assert (rm' = rm1) by (destruct Hrm' as [Hrm'|[Hrm' _]]; congruence). subst rm'.
+        destruct (rmem_put rm1 (PStr sid) b2 sid eio W1 Hsidrefl Hb2) as (W2 & A2 & B2 & C2 & _).
+        exists (aset room_eqb rm1 (PStr sid) (aset str_eqb b2 sid eio)). split; [apply set_rooms_aset_twice|].
+        split; [auto|split].
+        + intros r s e Hm. destruct (A2 _ _ _ Hm) as [Hm'|(-> & -> & _)]; auto.
+        + intros r s e Hm [Hr|Hs]; auto. }
+    destruct Hfin as (rm2 & -> & W2 & A2 & B2).
+    assert (Hnone1 : rmem rm1 PNone sid eio).
+    { destruct D1 as (r & [->|Hr] & Hm); [auto|]. apply py_eq_none_r in Hr. subst. auto. }
+    assert (Hnone2 : forall s e, rmem rm1 PNone s e -> rmem rm2 PNone s e).
+    { intros s e Hm. apply B2; auto. }
+    assert (Hold : forall r s e, rmem rm r s e -> exists k, k < fr /\ s = sid_name k).
+    { intros r s e Hm. destruct Hrm as [Hn|[_ ->]]; [|destruct Hm as (? & [] & _)].
+      destruct (mi_ns _ _ _ H _ _ Hn) as [_ Hr]. eapply ri_fresh; eauto. }
+    assert (Holdne : forall r s e, rmem rm r s e -> s <> sid).
+    { intros r s e Hm. destruct (Hold _ _ _ Hm) as (k & Hk & ->). intros E. apply sid_name_inj in E. lia. }
+    assert (Hcases : forall r s e, rmem rm2 r s e -> (s = sid /\ e = eio) \/ (s <> sid /\ rmem rm r s e)).
+    { intros r s e Hm. destruct (A2 _ _ _ Hm) as [Hm1|[-> ->]]; [|auto].
+      destruct (A1 _ _ _ Hm1) as [Hm0|(-> & -> & _)]; [|auto]. right. split; [eapply Holdne; eauto|auto]. }
+    assert (Hkeep : forall r s e, rmem rm r s e -> rmem rm2 r s e).
+    { intros r s e Hm. apply B2; [|right; eapply Holdne; eauto]. apply B1; auto. eapply Holdne; eauto. }
+    assert (Hinv' : RmInv lv (fr + 1) rm2).
+    { split; auto.
+      - eapply rmem_nonnil. apply Hnone2. eauto.
+      - intros r s e Hm. destruct (Hcases _ _ _ Hm) as [[-> ->]|[Hne Hm0]]; [auto|].
+        apply Hkeep. destruct Hrm as [Hn|[_ ->]]; [|destruct Hm0 as (? & [] & _)].
+        destruct (mi_ns _ _ _ H _ _ Hn) as [_ Hr]. eapply ri_sub; eauto.
+      - intros s1 s2 e Hm1 Hm2.
+        destruct (Hcases _ _ _ Hm1) as [[Hs1 He1]|[Hne1 Hm01]], (Hcases _ _ _ Hm2) as [[Hs2 He2]|[Hne2 Hm02]].
+        + congruence.
+        + exfalso. subst e. apply (rmem_none_iff _ _ _ Hwf) in Hm02 as (b0 & Hg0 & Hs0).
+          destruct Hb as [Hb|[Hb _]]; [|congruence]. assert (b0 = b) by congruence. subst.
+          apply (xaget_In _ str_eqb_eq) in Hs0. eapply bd_inv_None; eauto.
+        + exfalso. subst e. apply (rmem_none_iff _ _ _ Hwf) in Hm01 as (b0 & Hg0 & Hs0).
+          destruct Hb as [Hb|[Hb _]]; [|congruence]. assert (b0 = b) by congruence. subst.
+          apply (xaget_In _ str_eqb_eq) in Hs0. eapply bd_inv_None; eauto.
+        + destruct Hrm as [Hn|[_ ->]]; [|destruct Hm01 as (? & [] & _)].
+          destruct (mi_ns _ _ _ H _ _ Hn) as [_ Hr]. eapply ri_inj; eauto.
+      - intros r s e Hm. destruct (Hcases _ _ _ Hm) as [[-> ->]|[Hne Hm0]]; [auto|].
+        destruct Hrm as [Hn|[_ ->]]; [|destruct Hm0 as (? & [] & _)].
+        destruct (mi_ns _ _ _ H _ _ Hn) as [_ Hr]. eapply ri_live; eauto.
+      - intros r s e Hm. destruct (Hcases _ _ _ Hm) as [[-> ->]|[Hne Hm0]].
+        + exists fr. split; [lia|reflexivity].
+        + destruct (Hold _ _ _ Hm0) as (k & Hk & ->). exists k. split; [lia|reflexivity]. }
+    assert (Hrm2ne : rm2 <> []) by apply (ri_ne _ _ _ Hinv').
+    rewrite <- (ns_put_nonnil m ns rm2 Hrm2ne).
+    split; [|split; [|split; [|split; [|split; [|split]]]]].
+    + apply MInv_ns_put; auto. intros k rm0 e _ Hn0 Hm. exists e. apply Hkeep.
+      destruct Hrm as [Hn|[Hn _]]; congruence.
+    + apply ns_put_pending.
+    + apply ns_put_callbacks.
+    + intros ns0 Hne. rewrite ns_rooms_ns_put by apply (mi_keys _ _ _ H).
+      destruct (str_eqb ns0 ns) eqn:E; [apply str_eqb_eq in E; contradiction|reflexivity].
+    + discriminate.
+    + auto.
+    + intros _. exists rm2. split; [|split; [|split]].
+      * rewrite ns_rooms_ns_put by apply (mi_keys _ _ _ H). rewrite str_eqb_refl. destruct rm2; [contradiction|reflexivity].
+      * auto.
+      * intros r s e Hm. destruct (Hcases _ _ _ Hm) as [?|[Hne Hm0]]; [auto|]. right. split; [auto|].
+        destruct Hrm as [Hn|[_ ->]]; [|destruct Hm0 as (? & [] & _)]. exists rm. auto.
+      * intros rm0 r s e Hn0 Hm. apply Hkeep. destruct Hrm as [Hn|[Hn _]]; congruence.
+Qed.
+
+Lemma nroom_ns_put m ns rm' ns0 : keys_ok str_eqb (rooms m) ->
+  nroom (ns_put m ns rm') ns0 = if str_eqb ns0 ns then aget room_eqb rm' PNone else nroom m ns0.
+Proof.
+  intros Hk. unfold nroom, room_of. rewrite ns_rooms_ns_put by auto.
+  destruct (str_eqb ns0 ns); [|reflexivity]. destruct rm'; reflexivity.
+Qed.
+
+(* ---- enter_room (any room name except None that is equal to itself) ---- *)
+Definition room_ok (room : pv) : Prop := room <> PNone /\ room_eqb room room = true.
+
+Lemma enter_room_spec lv fr m sid ns room :
+  MInv lv fr m -> room_ok room ->
+  let m' := fst (enter_room m sid ns room) in
+  MInv lv fr m' /\ pending m' = pending m /\ callbacks m' = callbacks m /\
+  (forall ns0, nroom m' ns0 = nroom m ns0).
+Proof.
+  intros H [Hne Hrefl] m'. unfold m', enter_room.
+  destruct (ns_rooms m ns) as [rm|] eqn:Hn; [|cbn [fst]; splits; auto].
+  destruct (mi_ns _ _ _ H _ _ Hn) as [Hnsne Hr].
+  destruct (match aget room_eqb rm PNone with Some b0 => bd_get b0 sid | None => None end) as [eio|] eqn:He;
+    [|cbn [fst]; splits; auto].
+  assert (Hmem : rmem rm PNone sid eio).
+  { apply rmem_none_iff; [apply (ri_wf _ _ _ Hr)|]. destruct (aget room_eqb rm PNone) as [b0|]; [|discriminate]. eauto. }
+  set (b := match aget room_eqb rm room with Some b => b | None => [] end).
+  assert (Hb : aget room_eqb rm room = Some b \/ (aget room_eqb rm room = None /\ b = [])).
+  { unfold b. destruct (aget room_eqb rm room); auto. }
+  unfold bd_put. destruct (bd_inv b eio) as [s'|] eqn:Hinv.
+  - assert (Hb' : aget room_eqb rm room = Some b).
+    { destruct Hb as [Hb|[_ Hb]]; [auto|]. rewrite Hb in Hinv. discriminate. }
+    assert (s' = sid).
+    { apply bd_inv_In in Hinv. apply aget_In in Hb' as (k' & Hin & _).
+      assert (Hm' : rmem rm k' s' eio) by (exists b; auto).
+      apply (ri_sub _ _ _ Hr) in Hm'. eapply ri_inj; eauto. }
+    subst s'. rewrite str_eqb_refl. cbn [fst].
+    rewrite (aset_same _ _ _ _ Hb'). unfold ns_rooms in Hn. rewrite (aset_same _ _ _ _ Hn), set_rooms_same.
+    splits; auto.
+  - cbn [fst]. set (rm' := aset room_eqb rm room (aset str_eqb b sid eio)).
+    destruct (rmem_put rm room b sid eio (ri_wf _ _ _ Hr) Hrefl Hb) as (W1 & A1 & B1 & C1 & D1). fold rm' in W1, A1, B1, C1, D1.
+    assert (Hnone : forall s e, rmem rm PNone s e -> rmem rm' PNone s e).
+    { intros s e Hm. apply C1; auto. destruct (room_eqb PNone room) eqn:E; [|reflexivity]. apply py_eq_none_l in E. contradiction. }
+    assert (Hcases : forall r s e, rmem rm' r s e -> rmem rm r s e \/ (s = sid /\ e = eio /\ r <> PNone)).
+    { intros r s e Hm. destruct (A1 _ _ _ Hm) as [?|(-> & -> & Hrr)]; [auto|]. right. splits; auto.
+      intros ->. destruct Hrr as [Hrr|Hrr]; [congruence|]. apply py_eq_none_l in Hrr. contradiction. }
+    assert (Hr' : RmInv lv fr rm').
+    { split; auto.
+      - eapply rmem_nonnil. eauto.
+      - intros r s e Hm. destruct (Hcases _ _ _ Hm) as [Hm0|(-> & -> & _)]; [|auto].
+        apply Hnone. eapply ri_sub; eauto.
+      - intros s1 s2 e Hm1 Hm2.
+        destruct (Hcases _ _ _ Hm1) as [Hm01|(_ & _ & Hc)]; [|contradiction].
+        destruct (Hcases _ _ _ Hm2) as [Hm02|(_ & _ & Hc)]; [|contradiction]. eapply ri_inj; eauto.
+      - intros r s e Hm. destruct (Hcases _ _ _ Hm) as [Hm0|(-> & -> & _)]; eapply ri_live; eauto.
+      - intros r s e Hm. destruct (Hcases _ _ _ Hm) as [Hm0|(-> & -> & _)]; eapply ri_fresh; eauto. }
+    rewrite <- (ns_put_nonnil m ns rm' (ri_ne _ _ _ Hr')).
+    splits.
+    + apply MInv_ns_put; auto. intros k rm0 e _ Hn0 Hm. exists e. apply Hnone. congruence.
+    + apply ns_put_pending.
+    + apply ns_put_callbacks.
+    + intros ns0. rewrite nroom_ns_put by apply (mi_keys _ _ _ H).
+      destruct (str_eqb ns0 ns) eqn:E; [|reflexivity]. apply str_eqb_eq in E. subst.
+      unfold nroom, room_of. rewrite Hn. unfold rm'. apply aget_aset_frame.
+      * apply room_eqb_none_frame; auto.
+      * apply room_neq_none; auto.
+Qed.
+
+(* ---- close_room ---- *)
+Lemma fold_leave_MInv lv fr ns room (l : bidict) : room <> PNone -> forall m,
+  MInv lv fr m ->
+  let m' := fold_left (fun m se => leave_room m (fst se) ns room) l m in
+  MInv lv fr m' /\ pending m' = pending m /\ callbacks m' = callbacks m /\ (forall ns0, nroom m' ns0 = nroom m ns0).
+Proof.
+  intros Hne. induction l as [|se l IH]; intros m H; cbn [fold_left]; [splits; auto|].
+  destruct (IH (leave_room m (fst se) ns room)) as (A & B & C & D); [apply MInv_leave_room; auto|].
+  splits; auto.
+  - rewrite B. apply leave_room_pending.
+  - rewrite C. apply leave_room_callbacks.
+  - intros ns0. rewrite D. apply leave_room_nroom; auto. apply (mi_keys _ _ _ H).
+Qed.
+
+Lemma close_room_spec lv fr m room ns :
+  MInv lv fr m -> room <> PNone ->
+  let m' := close_room m room ns in
+  MInv lv fr m' /\ pending m' = pending m /\ callbacks m' = callbacks m /\ (forall ns0, nroom m' ns0 = nroom m ns0).
+Proof.
+  intros H Hne. unfold close_room. destruct (participants m ns room); [|splits; auto].
+  apply fold_leave_MInv; auto.
+Qed.
+
+(* ---- callbacks ---- *)
+Lemma generate_ack_id_MInv lv fr m sid cb :
+  MInv lv fr m -> (exists ns rm e, ns_rooms m ns = Some rm /\ rmem rm PNone sid e) ->
+  let m' := fst (generate_ack_id m sid cb) in
+  MInv lv fr m' /\ rooms m' = rooms m /\ pending m' = pending m.
+Proof.
+  intros [H1 H2 H3 H4] Hmem. unfold generate_ack_id.
+  set (slot := match aget str_eqb (callbacks m) sid with Some s => s | None => mkSlot (Some 1) [] end).
+  assert (G : forall slot', MInv lv fr (mkMgr (rooms m) (pending m) (aset str_eqb (callbacks m) sid slot'))).
+  { intros slot'. split; auto.
+    - cbn [callbacks]. apply (xkeys_ok_aset _ str_eqb_eq). auto.
+    - intros k Hk. cbn [callbacks] in Hk. apply (xkeys_aset _ str_eqb_eq) in Hk as [Hk| ->]; [apply H4; auto|].
+      exact Hmem. }
+  destruct (cb_counter slot); cbn [fst]; splits; auto.
+Qed.
+
+Lemma trigger_callback_MInv lv fr m osid id :
+  MInv lv fr m ->
+  let m' := fst (trigger_callback m osid id) in
+  MInv lv fr m' /\ rooms m' = rooms m /\ pending m' = pending m /\
+  (forall k, In k (map fst (callbacks m')) <-> In k (map fst (callbacks m))).
+Proof.
+  intros H. unfold trigger_callback.
+  destruct osid as [s|]; [|cbn [fst]; splits; auto; tauto].
+  destruct id as [i|]; [|cbn [fst]; splits; auto; tauto].
+  destruct (aget str_eqb (callbacks m) s) as [slot|] eqn:Hs; [|cbn [fst]; splits; auto; tauto].
+  destruct (i <=? 0)%Z; [cbn [fst]; splits; auto; tauto|].
+  destruct (aget N.eqb (cb_entries slot) (Z.to_N i)); [|cbn [fst]; splits; auto; tauto].
+  cbn [fst rooms pending callbacks].
+  assert (Hkeys : forall k slot', In k (map fst (aset str_eqb (callbacks m) s slot')) <-> In k (map fst (callbacks m))).
+  { intros k slot'. rewrite (xkeys_aset _ str_eqb_eq). split; [|auto]. intros [Hk| ->]; [auto|].
+    apply (xaget_In _ str_eqb_eq) in Hs. apply in_map_iff. exists (s, slot). auto. }
+  destruct H as [H1 H2 H3 H4]. splits; auto. split; auto.
+  - cbn [callbacks]. apply (xkeys_ok_aset _ str_eqb_eq). auto.
+  - intros k Hk. cbn [callbacks] in Hk. apply Hkeys in Hk. apply H4; auto.
+Qed.
+
+Lemma pre_disconnect_MInv lv fr m sid ns :
+  MInv lv fr m -> MInv lv fr (fst (pre_disconnect m sid ns)).
+Proof.
+  intros H. unfold pre_disconnect. destruct (room_of m ns PNone); cbn [fst]; (apply (MInv_ext lv fr m); [reflexivity|reflexivity|exact H]).
+Qed.
+(* ------------------------------------------------------------------------------------ *)
+(** * 5. The server invariant *)
+
+Definition keys_live {V} (lv : list str) (l : list (str * V)) : Prop :=
+  keys_ok str_eqb l /\ forall k, In k (map fst l) -> In k lv.
+
+(* holds at every point of an execution, including inside application handlers *)
+Record Mid (s : srv) : Prop := mkMid {
+  mid_mg : MInv (live s) (fresh s) (mg s);
+  mid_env : keys_live (live s) (environ s);
+  mid_bin : keys_live (live s) (binpkt s);
+  mid_ses : keys_live (live s) (sessions s)
+}.
+(* holds between operations: nobody is half-way through a disconnect *)
+Definition Inv (s : srv) : Prop := Mid s /\ pending (mg s) = [].
+
+Lemma Inv_init : Inv srv_init.
+Proof.
+  split; [|reflexivity]. split; cbn; [apply MInv_init| | |]; (split; [exact I|intros k []]).
+Qed.
+
+Definition upd_mg (s : srv) (m' : mgr) : srv := mkSrv m' (environ s) (binpkt s) (sessions s) (live s) (fresh s).
+
+Lemma with_mg_run {A} (f : mgr -> mgr * A) s :
+  with_mg f s = (upd_mg s (fst (f (mg s))), [], Ok (snd (f (mg s)))).
+Proof. unfold with_mg, bindM, getS, putS, ret, upd_mg. destruct (f (mg s)) as [m' a]. reflexivity. Qed.
+Lemma set_mg_run f s : set_mg f s = (upd_mg s (f (mg s)), [], Ok tt).
+Proof. reflexivity. Qed.
+
+Lemma hp_with_mg {A} (f : mgr -> mgr * A) s (Q : Post A) :
+  Q (Ok (snd (f (mg s)))) (upd_mg s (fst (f (mg s)))) [] -> hp s (with_mg f) Q.
+Proof. unfold hp. rewrite with_mg_run. auto. Qed.
+Lemma hp_set_mg f s (Q : Post unit) : Q (Ok tt) (upd_mg s (f (mg s))) [] -> hp s (set_mg f) Q.
+Proof. unfold hp. rewrite set_mg_run. auto. Qed.
+
+Lemma Mid_upd_mg s m' : Mid s -> MInv (live s) (fresh s) m' -> Mid (upd_mg s m').
+Proof. intros [H1 H2 H3 H4] H. split; auto. Qed.
+
+(* what an application handler never changes: the pending list, the callbacks, who is connected
+   to which namespace (the None rooms), the environ and binary-packet tables, liveness, the
+   id generator.  (It may change other rooms and the user sessions.) *)
+Record hframe (s0 s : srv) : Prop := mkHframe {
+  hf_pending : pending (mg s) = pending (mg s0);
+  hf_callbacks : callbacks (mg s) = callbacks (mg s0);
+  hf_nroom : forall ns, nroom (mg s) ns = nroom (mg s0) ns;
+  hf_environ : environ s = environ s0;
+  hf_binpkt : binpkt s = binpkt s0;
+  hf_live : live s = live s0;
+  hf_fresh : fresh s = fresh s0
+}.
+Lemma hframe_refl s : hframe s s.
+Proof. split; auto. Qed.
+Lemma hframe_trans s0 s1 s2 : hframe s0 s1 -> hframe s1 s2 -> hframe s0 s2.
+Proof.
+  intros [A1 A2 A3 A4 A5 A6 A7] [B1 B2 B3 B4 B5 B6 B7]. split; try congruence; try (intros ns; rewrite B3; apply A3).
+Qed.
+
+(* ---- things that do not touch the state ---- *)
+Lemma forM_tell_run (ps : list pv) eio (s : srv) :
+  forM ps (fun p => tell (Out eio p) : SM unit) s = (s, map (Out eio) ps, Ok tt).
+Proof.
+  induction ps as [|p ps IH]; cbn [forM map]; [reflexivity|].
+  unfold bindM at 1. unfold tell at 1. rewrite IH. reflexivity.
+Qed.
+
+Lemma send_pieces_run eio ps s :
+  send_pieces eio ps s = (s, if existsb (str_eqb eio) (live s) then map (Out eio) ps else [], Ok tt).
+Proof.
+  unfold send_pieces, bindM, getS. destruct (existsb (str_eqb eio) (live s)).
+  - rewrite forM_tell_run. reflexivity.
+  - reflexivity.
+Qed.
+
+Section Quiet.
+  Variable J : srv -> Prop.
+  Variable E : eff -> Prop.
+
+  Lemma send_pieces_pres eio ps : (forall p, E (Out eio p)) -> pres J E (send_pieces eio ps).
+  Proof.
+    intros HE s H. unfold hp. rewrite send_pieces_run. split; [auto|].
+    destruct (existsb _ _); [|constructor]. apply Forall_forall. intros x Hx.
+    apply in_map_iff in Hx as (p & <- & _). auto.
+  Qed.
+
+  Lemma send_packet_pres c eio t data ns id :
+    (forall e p, eio = Some e -> E (Out e p)) -> pres J E (send_packet c eio t data ns id).
+  Proof.
+    intros HE. unfold send_packet. apply pres_bind; [apply pres_lift|]. intros p.
+    apply pres_bind; [apply pres_lift|]. intros enc.
+    destruct eio as [e|]; [|apply pres_ret]. apply send_pieces_pres. intros q. apply HE. reflexivity.
+  Qed.
+
+  Lemma mgr_emit_nocb_pres c ev data ns room skip :
+    (forall e p, E (Out e p)) -> pres J E (mgr_emit c ev data ns room skip None).
+  Proof.
+    intros HE. unfold mgr_emit. apply pres_bind; [apply pres_getS|]. intros s0.
+    destruct (ns_rooms (mg s0) ns); [|apply pres_ret].
+    apply pres_bind; [apply pres_lift|]. intros p.
+    apply pres_bind; [apply pres_lift|]. intros enc.
+    apply pres_bind; [apply pres_lift|]. intros parts.
+    apply pres_forM. intros se _. destruct (skipped _ _); [apply pres_ret|].
+    apply send_pieces_pres. auto.
+  Qed.
+End Quiet.
+
+(* ---- sessions ---- *)
+Lemma Mid_set_session s e d : Mid s -> In e (live s) ->
+  Mid (mkSrv (mg s) (environ s) (binpkt s) (aset str_eqb (sessions s) e d) (live s) (fresh s)).
+Proof.
+  intros [H1 H2 H3 [H4 H5]] He. split; auto. cbn [sessions live]. split.
+  - apply (xkeys_ok_aset _ str_eqb_eq). auto.
+  - intros k Hk. apply (xkeys_aset _ str_eqb_eq) in Hk as [Hk| ->]; auto.
+Qed.
+
+Lemma eio_session_live s eio d : eio_session s eio = Ok d -> exists e, eio = Some e /\ In e (live s).
+Proof.
+  unfold eio_session. destruct eio as [e|]; [|discriminate].
+  destruct (existsb (str_eqb e) (live s)) eqn:Ex; [|discriminate]. intros _. exists e. split; [reflexivity|].
+  apply existsb_exists in Ex as (x & Hx & Hex). apply str_eqb_eq in Hex. subst. auto.
+Qed.
+
+Lemma api_save_session_frame sid v ns s :
+  Mid s -> hp s (api_save_session sid v ns) (fun _ s' _ => Mid s' /\ hframe s s').
+Proof.
+  intros H. unfold api_save_session. apply hp_getS_bind. apply hp_bind. apply hp_lift.
+  destruct (eio_session s (eio_from_sid (mg s) sid (ns_or_default ns))) as [d|x] eqn:Hd;
+    [|split; [auto|apply hframe_refl]].
+  apply eio_session_live in Hd as (e & -> & He). unfold set_session. apply hp_modify.
+  split; [apply Mid_set_session; auto|split; auto].
+Qed.
+
+Lemma api_get_session_frame sid ns s :
+  Mid s -> hp s (api_get_session sid ns) (fun _ s' _ => Mid s' /\ hframe s s').
+Proof.
+  intros H. unfold api_get_session. apply hp_getS_bind. apply hp_bind. apply hp_lift.
+  destruct (eio_session s (eio_from_sid (mg s) sid (ns_or_default ns))) as [d|x] eqn:Hd;
+    [|split; [auto|apply hframe_refl]].
+  apply eio_session_live in Hd as (e & -> & He).
+  destruct (aget str_eqb d (ns_or_default ns)); [apply hp_ret; split; [auto|apply hframe_refl]|].
+  apply hp_bind. unfold set_session. apply hp_modify. apply hp_ret.
+  split; [apply Mid_set_session; auto|split; auto].
+Qed.
+
+(* ------------------------------------------------------------------------------------ *)
+(** * 6. Application handlers *)
+
+Definition action_ok (a : action) : Prop :=
+  match a with
+  | AEnter room => room_ok room
+  | ALeave room => room <> PNone
+  | _ => True
+  end.
+(* application misuse excluded from the claims: handlers do not leave / enter the room None *)
+Definition cfg_ok (c : cfg) : Prop :=
+  forall hid b a, In (hid, b) (behav c) -> In a (h_actions b) -> action_ok a.
+
+Lemma run_action_frame c ns sid a s :
+  action_ok a -> Mid s -> hp s (run_action c ns sid a) (fun _ s' _ => Mid s' /\ hframe s s').
+Proof.
+  intros Hok H. destruct a as [room|room|ev data|ev data room sk|v|]; cbn [run_action action_ok] in *.
+  - apply hp_bind. apply hp_with_mg.
+    destruct (enter_room_spec _ _ _ sid ns room (mid_mg _ H) Hok) as (A & B & C & D).
+    assert (G : Mid (upd_mg s (fst (enter_room (mg s) sid ns room))) /\
+                hframe s (upd_mg s (fst (enter_room (mg s) sid ns room)))).
+    { split; [apply Mid_upd_mg; auto|split; auto]. }
+    destruct (snd (enter_room (mg s) sid ns room)); apply hp_lift; exact G.
+  - apply hp_set_mg. split.
+    + apply Mid_upd_mg; auto. apply MInv_leave_room; auto. apply (mid_mg _ H).
+    + split; cbn [upd_mg mg environ binpkt live fresh]; auto.
+      * apply leave_room_pending.
+      * apply leave_room_callbacks.
+      * intros ns0. apply leave_room_nroom; auto. apply (mi_keys _ _ _ (mid_mg _ H)).
+  - unfold api_emit. eapply hp_conseq.
+    + apply (mgr_emit_nocb_pres (fun s' => s' = s) anyeff); [intros; exact I|reflexivity].
+    + intros r s' es [-> _]. split; [auto|apply hframe_refl].
+  - unfold api_emit. eapply hp_conseq.
+    + apply (mgr_emit_nocb_pres (fun s' => s' = s) anyeff); [intros; exact I|reflexivity].
+    + intros r s' es [-> _]. split; [auto|apply hframe_refl].
+  - apply api_save_session_frame; auto.
+  - apply hp_bind. eapply hp_conseq; [apply api_get_session_frame; auto|].
+    intros [v|x] s' es HH; [apply hp_tell|]; exact HH.
+Qed.
+
+Section Handlers.
+  Variable c : cfg.
+  Hypothesis Hc : cfg_ok c.
+  (* any predicate that is kept by Mid-preserving, frame-respecting steps *)
+  Variable J : srv -> Prop.
+  Hypothesis J_Mid : forall s, J s -> Mid s.
+  Hypothesis J_step : forall s s', J s -> Mid s' -> hframe s s' -> J s'.
+
+  Lemma run_action_J ns sid a : action_ok a -> pres J anyeff (run_action c ns sid a).
+  Proof.
+    intros Hok s Hs. eapply hp_conseq; [apply run_action_frame; auto|].
+    intros r s' es [HM HF]. split; [eauto|apply Forall_anyeff].
+  Qed.
+
+  Lemma call_handler_J hid ns sid args : pres J anyeff (call_handler c hid ns sid args).
+  Proof.
+    unfold call_handler. destruct (aget N.eqb (behav c) hid) as [b|] eqn:Hb; [|apply pres_raise].
+    destruct (match h_arity b with Some n => negb (Nat.eqb n (List.length args)) | None => false end);
+      [apply pres_raise|].
+    apply pres_bind; [apply pres_tell; exact I|]. intros _.
+    apply pres_bind.
+    - apply pres_forM. intros a Ha. apply run_action_J.
+      apply aget_In in Hb as (hid' & Hin & Heq). apply N.eqb_eq in Heq. subst. eapply Hc; eauto.
+    - intros _. destruct (h_outcome b); [apply pres_ret|apply pres_raise|apply pres_raise].
+  Qed.
+
+  Lemma call_with_retry_J ev hid ns sid args : pres J anyeff (call_with_retry c ev hid ns sid args).
+  Proof.
+    unfold call_with_retry. apply pres_catch; [apply call_handler_J|].
+    intros x k Hx. destruct x; try discriminate. destruct (is_disconnect ev); [|discriminate].
+    injection Hx as <-. apply call_handler_J.
+  Qed.
+
+  Lemma trigger_event_J ev ns args : pres J anyeff (trigger_event c ev ns args).
+  Proof.
+    unfold trigger_event. destruct (is_unhashable ev); [apply pres_raise|].
+    destruct (get_event_handler c ev ns args) as [[h args']|].
+    - apply pres_bind; [apply call_with_retry_J|]. intros v. apply pres_ret.
+    - destruct (get_namespace_handler c ns args) as [[methods args']|]; [|apply pres_ret].
+      destruct ev; try (destruct (truthy _); [apply pres_raise|apply pres_ret]).
+      destruct (aget str_eqb methods s) as [h|]; [|apply pres_ret].
+      apply pres_bind; [apply call_with_retry_J|]. intros v. apply pres_ret.
+  Qed.
+End Handlers.
+
+Lemma trigger_event_frame c ev ns args s :
+  cfg_ok c -> Mid s -> hp s (trigger_event c ev ns args) (fun _ s' _ => Mid s' /\ hframe s s').
+Proof.
+  intros Hc H.
+  assert (G := trigger_event_J c Hc (fun s' => Mid s' /\ hframe s s') (fun _ HH => proj1 HH)
+                 (fun s1 s2 HH HM HF => conj HM (hframe_trans _ _ _ (proj2 HH) HF)) ev ns args s
+                 (conj H (hframe_refl s))).
+  eapply hp_conseq; [exact G|]. intros r s' es [HH _]. exact HH.
+Qed.
+(* ------------------------------------------------------------------------------------ *)
+(** * 7. Operations *)
+
+Lemma nroom_rmem lv fr m ns b sid e :
+  MInv lv fr m -> nroom m ns = Some b -> In (sid, e) b ->
+  exists rm, ns_rooms m ns = Some rm /\ rmem rm PNone sid e.
+Proof.
+  intros H Hn Hin. unfold nroom, room_of in Hn. destruct (ns_rooms m ns) as [rm|] eqn:Hr; [|discriminate].
+  exists rm. split; [reflexivity|]. apply aget_In in Hn as (k' & Hin' & Hk). apply py_eq_none_r in Hk. subst.
+  exists b. auto.
+Qed.
+
+Lemma rmem_nroom lv fr m ns rm sid e :
+  MInv lv fr m -> ns_rooms m ns = Some rm -> rmem rm PNone sid e ->
+  exists b, nroom m ns = Some b /\ bd_get b sid = Some e /\ In (sid, e) b.
+Proof.
+  intros H Hr Hm. destruct (mi_ns _ _ _ H _ _ Hr) as [_ Hi].
+  apply (rmem_none_iff _ _ _ (ri_wf _ _ _ Hi)) in Hm as (b & Hg & Hs). exists b.
+  unfold nroom, room_of. rewrite Hr. splits; auto. apply (xaget_In _ str_eqb_eq). exact Hs.
+Qed.
+
+Lemma sid_from_eio_some lv fr m e ns sid :
+  MInv lv fr m -> sid_from_eio m e ns = Some sid ->
+  exists b rm, nroom m ns = Some b /\ In (sid, e) b /\ bd_get b sid = Some e /\
+               ns_rooms m ns = Some rm /\ rmem rm PNone sid e.
+Proof.
+  intros H Hs. unfold sid_from_eio in Hs. fold (nroom m ns) in Hs.
+  destruct (nroom m ns) as [b|] eqn:Hn; [|discriminate]. apply bd_inv_In in Hs.
+  destruct (nroom_rmem _ _ _ _ _ _ _ H Hn Hs) as (rm & Hr & Hm).
+  destruct (rmem_nroom _ _ _ _ _ _ _ H Hr Hm) as (b' & Hn' & Hg & _).
+  assert (b' = b) by congruence. subst. exists b, rm. splits; auto.
+Qed.
+
+Lemma sid_from_eio_none lv fr m e ns :
+  MInv lv fr m -> sid_from_eio m e ns = None -> forall rm r s, ns_rooms m ns = Some rm -> ~ rmem rm r s e.
+Proof.
+  intros H Hs rm r s Hr Hm. destruct (mi_ns _ _ _ H _ _ Hr) as [_ Hi].
+  apply (ri_sub _ _ _ Hi) in Hm. destruct (rmem_nroom _ _ _ _ _ _ _ H Hr Hm) as (b & Hn & _ & Hin).
+  unfold sid_from_eio in Hs. fold (nroom m ns) in Hs. rewrite Hn in Hs. eapply bd_inv_None; eauto.
+Qed.
+
+Lemma is_connected_nopending m sid ns b e :
+  pending m = [] -> nroom m ns = Some b -> bd_get b sid = Some e -> is_connected m (Some sid) ns = true.
+Proof.
+  intros Hp Hn Hg. unfold is_connected, is_pending. rewrite Hp. cbn [aget].
+  fold (nroom m ns). rewrite Hn, Hg. reflexivity.
+Qed.
+
+Lemma pre_disconnect_run m sid ns b :
+  pending m = [] -> nroom m ns = Some b ->
+  pre_disconnect m sid ns = (mkMgr (rooms m) [(ns, [sid])] (callbacks m), Ok (bd_get b sid)).
+Proof.
+  intros Hp Hn. unfold pre_disconnect. fold (nroom m ns). rewrite Hn, Hp. reflexivity.
+Qed.
+
+(* what _handle_disconnect guarantees for transport e and one namespace, whatever the handler does *)
+Record hd_post (e ns : str) (s s' : srv) : Prop := mkHdPost {
+  hd_inv : Inv s';
+  hd_gone : sid_from_eio (mg s') e ns = None;
+  hd_other : forall ns0, ns0 <> ns -> nroom (mg s') ns0 = nroom (mg s) ns0;
+  hd_cbsub : forall k, In k (map fst (callbacks (mg s'))) -> In k (map fst (callbacks (mg s)));
+  hd_cbgone : forall sid, sid_from_eio (mg s) e ns = Some sid -> ~ In sid (map fst (callbacks (mg s')));
+  hd_environ : environ s' = environ s;
+  hd_binpkt : binpkt s' = binpkt s;
+  hd_live : live s' = live s;
+  hd_fresh : fresh s' = fresh s
+}.
+
+(* the state after "handler in try, manager.disconnect in finally", started with the sid marked
+   as pending *)
+Lemma disconnect_tail c ev ns sid e args s1 b (Q : Post unit) :
+  cfg_ok c -> Mid s1 -> pending (mg s1) = [(ns, [sid])] -> nroom (mg s1) ns = Some b -> In (sid, e) b ->
+  (forall r s3 es,
+      Inv s3 -> sid_from_eio (mg s3) e ns = None ->
+      (forall ns0, ns0 <> ns -> nroom (mg s3) ns0 = nroom (mg s1) ns0) ->
+      (forall k, In k (map fst (callbacks (mg s3))) -> In k (map fst (callbacks (mg s1)))) ->
+      ~ In sid (map fst (callbacks (mg s3))) ->
+      environ s3 = environ s1 -> binpkt s3 = binpkt s1 -> live s3 = live s1 -> fresh s3 = fresh s1 ->
+      Q r s3 es) ->
+  hp s1 (finallyM (_ <~ trigger_event c ev ns args ;; ret tt)
+                  (set_mg (fun m => mgr_disconnect m sid ns))) Q.
+Proof.
+  intros Hc HM Hp Hn Hin HQ. apply hp_finally. apply hp_bind.
+  eapply hp_conseq; [apply trigger_event_frame; auto|].
+  intros r s2 e1 [HM2 HF].
+  assert (G : hp s2 (set_mg (fun m => mgr_disconnect m sid ns))
+                (fun rf s3 e2 => forall r0, Q r0 s3 (e1 ++ e2))).
+  { apply hp_set_mg. intros r0.
+    destruct (mgr_disconnect_spec _ _ _ sid ns (mid_mg _ HM2)) as (A & B & C & D & F & G).
+    assert (Hn2 : nroom (mg s2) ns = Some b) by (rewrite (hf_nroom _ _ HF); auto).
+    destruct (nroom_rmem _ _ _ _ _ _ _ (mid_mg _ HM2) Hn2 Hin) as (rm2 & Hr2 & Hm2).
+    destruct (mi_ns _ _ _ (mid_mg _ HM2) _ _ Hr2) as [_ Hi2].
+    apply HQ; cbn [upd_mg mg environ binpkt live fresh].
+    - split; [apply Mid_upd_mg; auto|]. cbn [upd_mg mg].
+      eapply mgr_disconnect_pending_one; eauto. rewrite (hf_pending _ _ HF). auto.
+    - destruct (sid_from_eio (mgr_disconnect (mg s2) sid ns) e ns) as [sid3|] eqn:Hs3; [|reflexivity]. exfalso.
+      destruct (sid_from_eio_some _ _ _ _ _ _ A Hs3) as (b3 & rm3 & _ & _ & _ & Hr3 & Hm3).
+      destruct (C _ _ _ _ Hr3 Hm3) as (Hne & rm2' & Hr2' & Hm2').
+      assert (rm2' = rm2) by congruence. subst. apply Hne. eapply ri_inj; eauto.
+    - intros ns0 Hne. unfold nroom, room_of. rewrite (B _ Hne). apply (hf_nroom _ _ HF).
+    - intros k Hk. rewrite <- (hf_callbacks _ _ HF). auto.
+    - apply G. congruence.
+    - apply (hf_environ _ _ HF).
+    - apply (hf_binpkt _ _ HF).
+    - apply (hf_live _ _ HF).
+    - apply (hf_fresh _ _ HF). }
+  destruct r as [v|x]; [apply hp_ret|]; (eapply hp_conseq; [exact G|]); intros rf s3 e2 HH; rewrite ?app_nil_r; apply HH.
+Qed.
+
+Lemma handle_disconnect_spec c e pns reason s :
+  cfg_ok c -> Inv s ->
+  hp s (handle_disconnect c e pns reason) (fun _ s' _ => hd_post e (ns_or_default pns) s s').
+Proof.
+  intros Hc [HM Hp]. unfold handle_disconnect. set (ns := ns_or_default pns). apply hp_getS_bind.
+  assert (Hsame : hd_post e ns s s -> forall u, hp s (ret u : SM unit) (fun _ s' _ => hd_post e ns s s')).
+  { intros HH u. apply hp_ret. exact HH. }
+  destruct (sid_from_eio (mg s) e ns) as [sid|] eqn:Hsid.
+  - destruct (sid_from_eio_some _ _ _ _ _ _ (mid_mg _ HM) Hsid) as (b & rm & Hn & Hin & Hg & Hr & Hm).
+    rewrite (is_connected_nopending _ _ _ _ _ Hp Hn Hg). cbn [negb].
+    apply hp_bind. apply hp_with_mg. rewrite (pre_disconnect_run _ _ _ _ Hp Hn). cbn [fst snd].
+    apply hp_bind. apply hp_lift. cbn beta iota.
+    set (s1 := upd_mg s (mkMgr (rooms (mg s)) [(ns, [sid])] (callbacks (mg s)))).
+    apply (disconnect_tail c _ ns sid e _ s1 b); auto.
+    + apply Mid_upd_mg; auto. apply (MInv_ext _ _ (mg s)); auto. apply (mid_mg _ HM).
+    + intros r s3 es A1 A2 A3 A4 A5 A6 A7 A8 A9. split; auto.
+      intros sid' Heq. assert (sid' = sid) by congruence. subst sid'. auto.
+  - cbn [is_connected negb]. apply hp_ret. split; auto.
+    + split; auto.
+    + intros sid' Heq. congruence.
+Qed.
+
+(* ---- transport end ---- *)
+Lemma hp_forM_keep_cons {A} (x : A) r (f : A -> SM unit) first s (Q : Post (option exn)) :
+  hp s (f x) (fun _ s1 e1 => forall first', hp s1 (forM_keep r f first') (fun out s2 e2 => Q out s2 (e1 ++ e2))) ->
+  hp s (forM_keep (x :: r) f first) Q.
+Proof.
+  unfold hp. cbn [forM_keep]. destruct (f x s) as [[s1 e1] res]. intros H.
+  specialize (H (match first, res with None, Err e => Some e | _, _ => first end)).
+  destruct (forM_keep r f _ s1) as [[s2 e2] out]. exact H.
+Qed.
+
+Lemma sid_from_eio_nroom m m' e n : nroom m' n = nroom m n -> sid_from_eio m' e n = sid_from_eio m e n.
+Proof. unfold sid_from_eio, nroom. intros ->. reflexivity. Qed.
+
+Section XKeys.
+  Context {V : Type}.
+  Lemma xkeys_nodup (l : list (str * V)) : keys_ok str_eqb l -> NoDup (map fst l).
+  Proof.
+    induction l as [|[k v] l IH]; cbn [keys_ok map fst]; [constructor|].
+    intros (_ & Hno & Hok). constructor; [|auto]. intros Hin. specialize (Hno _ Hin).
+    rewrite str_eqb_refl in Hno. discriminate.
+  Qed.
+End XKeys.
+
+Lemma close_loop c e reason s0 : cfg_ok c -> forall rest s first,
+  NoDup rest -> (forall n, In n rest -> n <> []) ->
+  Inv s ->
+  (forall n, ~ In n rest -> sid_from_eio (mg s) e n = None) ->
+  (forall n, In n rest -> nroom (mg s) n = nroom (mg s0) n) ->
+  (forall n sid, ~ In n rest -> sid_from_eio (mg s0) e n = Some sid -> ~ In sid (map fst (callbacks (mg s)))) ->
+  (forall k, In k (map fst (callbacks (mg s))) -> In k (map fst (callbacks (mg s0)))) ->
+  environ s = environ s0 -> binpkt s = binpkt s0 -> live s = live s0 -> fresh s = fresh s0 ->
+  hp s (forM_keep rest (fun n => handle_disconnect c e (Some n) reason) first)
+     (fun r s' _ =>
+        (exists o, r = Ok o) /\
+        Inv s' /\ (forall n, sid_from_eio (mg s') e n = None) /\
+        (forall n sid, sid_from_eio (mg s0) e n = Some sid -> ~ In sid (map fst (callbacks (mg s')))) /\
+        (forall k, In k (map fst (callbacks (mg s'))) -> In k (map fst (callbacks (mg s0)))) /\
+        environ s' = environ s0 /\ binpkt s' = binpkt s0 /\ live s' = live s0 /\ fresh s' = fresh s0).
+Proof.
+  intros Hc. induction rest as [|n rest IH]; intros s first Hnd Hne HI HA HB HC HD E1 E2 E3 E4.
+  - cbn [forM_keep]. apply hp_ret. splits; eauto.
+  - apply hp_forM_keep_cons. inversion Hnd as [|? ? Hnotin Hnd']; subst.
+    assert (Hn : ns_or_default (Some n) = n).
+    { destruct n as [|ch n']; [exfalso; apply (Hne []); [left|]; reflexivity|reflexivity]. }
+    eapply hp_conseq; [apply handle_disconnect_spec; auto|]. rewrite Hn.
+    intros r s1 e1 P first'. eapply hp_conseq.
+    + apply (IH s1 first'); auto.
+      * intros n' Hin. apply Hne. right; auto.
+      * apply (hd_inv _ _ _ _ P).
+      * intros n' Hn'. destruct (list_eq_dec N.eq_dec n' n) as [->|Hd]; [apply (hd_gone _ _ _ _ P)|].
+        rewrite (sid_from_eio_nroom _ _ _ _ (hd_other _ _ _ _ P _ Hd)). apply HA. intros [<-|Hin]; auto.
+      * intros n' Hn'. assert (Hd : n' <> n) by (intros ->; contradiction).
+        rewrite (hd_other _ _ _ _ P _ Hd). apply HB. right; auto.
+      * intros n' sid Hn' Hs0. destruct (list_eq_dec N.eq_dec n' n) as [->|Hd].
+        -- apply (hd_cbgone _ _ _ _ P). rewrite (sid_from_eio_nroom (mg s0) (mg s)); [auto|]. apply HB. left; reflexivity.
+        -- intros Hk. apply (hd_cbsub _ _ _ _ P) in Hk. revert Hk. apply (HC n'); auto. intros [<-|Hin]; auto.
+      * intros k Hk. apply HD. apply (hd_cbsub _ _ _ _ P). auto.
+      * rewrite (hd_environ _ _ _ _ P). auto.
+      * rewrite (hd_binpkt _ _ _ _ P). auto.
+      * rewrite (hd_live _ _ _ _ P). auto.
+      * rewrite (hd_fresh _ _ _ _ P). auto.
+    + intros out s2 e2 HH. exact HH.
+Qed.
+
+Lemma MInv_live_shrink lv lv' fr m :
+  MInv lv fr m -> (forall ns rm r s x, ns_rooms m ns = Some rm -> rmem rm r s x -> In x lv') -> MInv lv' fr m.
+Proof.
+  intros [H1 H2 H3 H4] Hl. split; auto. intros ns rm Hr. destruct (H2 _ _ Hr) as [A [B1 B2 B3 B4 B5 B6]].
+  split; [auto|]. split; auto. intros r s x Hm. eapply Hl; eauto.
+Qed.
+
+Definition drop_live (e : str) (lv : list str) : list str := filter (fun x => negb (str_eqb x e)) lv.
+Lemma In_drop_live e lv x : In x (drop_live e lv) <-> In x lv /\ x <> e.
+Proof.
+  unfold drop_live. rewrite filter_In. split; intros [A B]; split; auto.
+  - intros ->. rewrite str_eqb_refl in B. discriminate.
+  - rewrite (eqb_neq _ str_eqb_eq); auto.
+Qed.
+
+Lemma keys_live_adel {V} e lv (l : list (str * V)) : keys_live lv l -> keys_live (drop_live e lv) (adel str_eqb l e).
+Proof.
+  intros [Hk Hl]. split; [apply keys_ok_adel; auto|]. intros k Hin.
+  apply (xkeys_adel _ str_eqb_eq) in Hin as [Hne Hin]; auto. apply In_drop_live. auto.
+Qed.
+
+(* the state after the transport-end operation *)
+Record close_post (e : str) (s s' : srv) : Prop := mkClosePost {
+  cp_inv : Inv s';
+  cp_live : live s' = drop_live e (live s);
+  cp_fresh : fresh s' = fresh s;
+  cp_callbacks : forall n sid, sid_from_eio (mg s) e n = Some sid -> ~ In sid (map fst (callbacks (mg s')));
+  cp_cbsub : forall k, In k (map fst (callbacks (mg s'))) -> In k (map fst (callbacks (mg s)))
+}.
+
+Lemma step_close_spec c s e reason :
+  cfg_ok c -> Inv s -> In e (live s) -> close_post e s (fst (step c s (EioClose e reason))).
+Proof.
+  intros Hc HI Hlive.
+  assert (Hex : existsb (str_eqb e) (live s) = true).
+  { apply existsb_exists. exists e. split; [auto|apply str_eqb_refl]. }
+  assert (G : hp s (step_m c (EioClose e reason)) (fun _ s' _ => close_post e s s')).
+  { cbn [step_m]. apply hp_getS_bind. rewrite Hex. apply hp_bind. apply hp_contain.
+    unfold handle_eio_disconnect. apply hp_getS_bind. apply hp_bind.
+    destruct HI as [HM Hp]. assert (HMI := mid_mg _ HM).
+    eapply hp_conseq.
+    - apply (close_loop c e reason s Hc (get_namespaces (mg s)) s None); auto.
+      + apply xkeys_nodup. apply (mi_keys _ _ _ HMI).
+      + intros n Hin. unfold get_namespaces in Hin. apply in_map_iff in Hin as ([n' rm] & <- & Hin).
+        apply (keys_ok_aget _ _ _ _ (mi_keys _ _ _ HMI)) in Hin. apply (mi_ns _ _ _ HMI _ _ Hin).
+      + split; auto.
+      + intros n Hn. unfold sid_from_eio, room_of, ns_rooms.
+        apply (xaget_None _ str_eqb_eq) in Hn. rewrite Hn. reflexivity.
+      + intros n sid Hn Hs. exfalso. unfold sid_from_eio, room_of, ns_rooms in Hs.
+        apply (xaget_None _ str_eqb_eq) in Hn. rewrite Hn in Hs. discriminate.
+    - intros out0 s1 e1 ((out & ->) & [HM1 Hp1] & A & B & C & E1 & E2 & E3 & E4).
+      assert (Fin : close_post e s (mkSrv (mg s1) (adel str_eqb (environ s1) e) (adel str_eqb (binpkt s1) e)
+                                          (adel str_eqb (sessions s1) e)
+                                          (filter (fun x => negb (str_eqb x e)) (live s1)) (fresh s1))).
+      { fold (drop_live e (live s1)). split; cbn [mg live fresh]; auto; try congruence.
+        - split; [|auto]. split; cbn [mg environ binpkt sessions live fresh].
+          + eapply MInv_live_shrink; [apply (mid_mg _ HM1)|].
+            intros ns rm r0 sd x Hr Hm. apply In_drop_live. split.
+            * destruct (mi_ns _ _ _ (mid_mg _ HM1) _ _ Hr) as [_ Hi]. eapply ri_live; eauto.
+            * intros ->. exact (sid_from_eio_none _ _ _ _ _ (mid_mg _ HM1) (A ns) _ _ _ Hr Hm).
+          + apply keys_live_adel. apply (mid_env _ HM1).
+          + apply keys_live_adel. apply (mid_bin _ HM1).
+          + apply keys_live_adel. apply (mid_ses _ HM1). }
+      apply hp_bind. apply hp_modify.
+      destruct out as [x|]; [apply hp_raise|apply hp_ret]; apply hp_modify;
+        cbn [mg environ binpkt sessions live fresh]; exact Fin. }
+  unfold step. unfold hp in G. destruct (step_m c (EioClose e reason) s) as [[s' es] r]. exact G.
+Qed.
+
+Lemma step_close_dead c s e reason : ~ In e (live s) -> step c s (EioClose e reason) = (s, []).
+Proof.
+  intros Hn. unfold step. cbn [step_m]. unfold bindM, getS.
+  destruct (existsb (str_eqb e) (live s)) eqn:Ex; [|reflexivity].
+  exfalso. apply existsb_exists in Ex as (x & Hx & Hex). apply str_eqb_eq in Hex. subst. auto.
+Qed.
+(* ---- incoming packets ---- *)
+Lemma Inv_Mid s : Inv s -> Mid s.
+Proof. intros [H _]. exact H. Qed.
+Lemma Inv_hstep s s' : Inv s -> Mid s' -> hframe s s' -> Inv s'.
+Proof. intros [_ Hp] HM HF. split; [auto|]. rewrite (hf_pending _ _ HF). auto. Qed.
+
+Lemma pres_with_mg {A} (J : srv -> Prop) E (f : mgr -> mgr * A) :
+  (forall s, J s -> J (upd_mg s (fst (f (mg s))))) -> pres J E (with_mg f).
+Proof. intros Hf s H. apply hp_with_mg. split; [auto|constructor]. Qed.
+Lemma pres_set_mg (J : srv -> Prop) E f :
+  (forall s, J s -> J (upd_mg s (f (mg s)))) -> pres J E (set_mg f).
+Proof. intros Hf s H. apply hp_set_mg. split; [auto|constructor]. Qed.
+
+Lemma send_packet_any J c eio t data ns id : pres J anyeff (send_packet c eio t data ns id).
+Proof. apply send_packet_pres. intros; exact I. Qed.
+
+Lemma handle_event_Inv c eio pns id data : cfg_ok c -> pres Inv anyeff (handle_event c eio pns id data).
+Proof.
+  intros Hc. unfold handle_event. apply pres_bind; [apply pres_getS|]. intros s0.
+  apply pres_bind; [apply pres_lift|]. intros ea.
+  destruct (negb _); [apply pres_ret|].
+  destruct (sid_from_eio (mg s0) eio (ns_or_default pns)) as [sid|]; [|apply pres_ret].
+  apply pres_bind; [apply (trigger_event_J c Hc Inv Inv_Mid Inv_hstep)|]. intros r.
+  destruct r as [v|]; [|apply pres_ret]. destruct id as [i|]; [|apply pres_ret]. apply send_packet_any.
+Qed.
+
+Lemma handle_ack_Inv c eio pns id data : pres Inv anyeff (handle_ack c eio pns id data).
+Proof.
+  unfold handle_ack. apply pres_bind; [apply pres_getS|]. intros s0.
+  apply pres_bind.
+  - apply pres_with_mg. intros s [HM Hp].
+    destruct (trigger_callback_MInv _ _ _ (sid_from_eio (mg s0) eio (ns_or_default pns)) id (mid_mg _ HM)) as (A & B & C & D).
+    split; [apply Mid_upd_mg; auto|]. cbn [upd_mg mg]. congruence.
+  - intros t. destruct t; [apply pres_ret|]. apply pres_bind; [apply pres_lift|]. intros args.
+    apply pres_tell. exact I.
+Qed.
+
+Lemma Inv_fresh_succ s :
+  Inv s -> Inv (mkSrv (mg s) (environ s) (binpkt s) (sessions s) (live s) (fresh s + 1)).
+Proof.
+  intros [[H1 H2 H3 H4] Hp]. split; [|auto]. split; auto. cbn [mg live fresh].
+  eapply MInv_mono; eauto. lia.
+Qed.
+
+Lemma handle_connect_Inv c eio pns data s :
+  cfg_ok c -> Inv s -> In eio (live s) ->
+  hp s (handle_connect c eio pns data) (fun _ s' _ => Inv s').
+Proof.
+  intros Hc HI Hlive. unfold handle_connect. set (ns := ns_or_default pns).
+  assert (Hns : ns <> []).
+  { unfold ns, ns_or_default. destruct pns as [[|ch r]|]; discriminate. }
+  apply hp_getS_bind. apply hp_bind.
+  (* the state after manager.connect *)
+  assert (G1 : hp s (if served c ns
+                     then putS (mkSrv (mg s) (environ s) (binpkt s) (sessions s) (live s) (fresh s + 1)) ;;;
+                          with_mg (fun m => mgr_connect m eio ns (sid_name (fresh s)))
+                     else ret None)
+                  (fun r s1 es => Inv s1 /\ live s1 = live s /\ environ s1 = environ s /\ es = [] /\
+                     (r = Ok None \/
+                      (r = Ok (Some (sid_name (fresh s))) /\
+                       exists b, nroom (mg s1) ns = Some b /\ In (sid_name (fresh s), eio) b)))).
+  { destruct (served c ns).
+    - apply hp_bind. apply hp_putS. apply hp_with_mg. cbn [mg environ binpkt sessions live fresh upd_mg].
+      destruct HI as [HM Hp].
+      destruct (mgr_connect_spec _ _ _ eio ns (mid_mg _ HM) Hlive Hns) as (A & B & C & D & F & G & K).
+      splits; auto.
+      + split; [|cbn [mg upd_mg]; congruence]. destruct HM as [H1 H2 H3 H4]. split; auto.
+      + destruct G as [G|G]; rewrite G; [left; reflexivity|right]. split; [reflexivity|].
+        destruct (K G) as (rm' & Hr' & Hm' & _).
+        destruct (rmem_nroom _ _ _ _ _ _ _ A Hr' Hm') as (b & Hn & _ & Hin). exists b. auto.
+    - apply hp_ret. splits; auto. }
+  eapply hp_conseq; [exact G1|]. clear G1.
+  intros r s1 es (HI1 & Hl1 & He1 & -> & Hcase).
+  destruct Hcase as [->|(-> & b & Hn1 & Hin1)].
+  { eapply hp_conseq; [apply (send_packet_any Inv); auto|]. intros ? ? ? [? _]. auto. }
+  set (sid := sid_name (fresh s)) in *.
+  (* everything up to the verdict keeps the frame of s1 *)
+  set (J := fun s' => Mid s' /\ hframe s1 s').
+  assert (JM : forall s', J s' -> Mid s') by (intros s' [A _]; exact A).
+  assert (JS : forall s' s'', J s' -> Mid s'' -> hframe s' s'' -> J s'').
+  { intros s' s'' [_ A] B C. split; [auto|]. eapply hframe_trans; eauto. }
+  assert (J1 : J s1) by (split; [apply HI1|apply hframe_refl]).
+  assert (JInv : forall s', J s' -> Inv s').
+  { intros s' [A B]. split; [auto|]. rewrite (hf_pending _ _ B). apply HI1. }
+  apply hp_bind. eapply hp_conseq.
+  { assert (P : pres J anyeff (if always_connect c then send_packet c (Some eio) CONNECT (sid_dict sid) ns None else ret tt)).
+    { destruct (always_connect c); [apply send_packet_any|apply pres_ret]. }
+    apply P. exact J1. }
+  intros [u|x] s2 e2 [J2 _]; [|apply JInv; auto].
+  apply hp_bind. eapply hp_conseq.
+  { assert (P : pres J anyeff (match aget str_eqb (environ s) eio with Some e => ret e | None => raise KeyError end)).
+    { destruct (aget str_eqb (environ s) eio); [apply pres_ret|apply pres_raise]. }
+    apply P. exact J2. }
+  intros [env|x] s3 e3 [J3 _]; [|apply JInv; auto].
+  apply hp_bind. eapply hp_conseq.
+  { refine ((_ : pres J anyeff _) s3 J3).
+    apply pres_catch.
+    - apply pres_bind; [|intros r; apply pres_ret].
+      destruct (truthy data); [apply (trigger_event_J c Hc J JM JS)|].
+      apply pres_catch; [apply (trigger_event_J c Hc J JM JS)|].
+      intros x k Hx. destruct x; try discriminate. injection Hx as <-. apply (trigger_event_J c Hc J JM JS).
+    - intros x k Hx. destruct x; try discriminate. injection Hx as <-. apply pres_ret. }
+  intros [[success fail_reason]|x] s4 e4 [J4 _]; [|apply JInv; auto].
+  destruct (match success with Some v => pv_eqb v (PBool false) | None => false end).
+  2:{ eapply hp_conseq.
+      - refine ((_ : pres J anyeff _) s4 J4). destruct (always_connect c); [apply pres_ret|apply send_packet_any].
+      - intros ? ? ? [? _]. apply JInv; auto. }
+  (* refusal: the sid is forgotten in the finally clause whatever the send does *)
+  destruct J4 as [M4 F4].
+  assert (Hn4 : nroom (mg s4) ns = Some b) by (rewrite (hf_nroom _ _ F4); auto).
+  assert (Hp4 : pending (mg s4) = []) by (rewrite (hf_pending _ _ F4); apply HI1).
+  destruct (nroom_rmem _ _ _ _ _ _ _ (mid_mg _ M4) Hn4 Hin1) as (rm4 & Hr4 & Hm4).
+  apply hp_finally. destruct (always_connect c).
+  - apply hp_bind. apply hp_with_mg. rewrite (pre_disconnect_run _ _ _ _ Hp4 Hn4). cbn [fst snd].
+    set (s5 := upd_mg s4 (mkMgr (rooms (mg s4)) [(ns, [sid])] (callbacks (mg s4)))).
+    assert (M5 : Mid s5).
+    { apply Mid_upd_mg; auto. apply (MInv_ext _ _ (mg s4)); auto. apply (mid_mg _ M4). }
+    apply hp_bind. apply hp_lift. cbn beta iota.
+    eapply hp_conseq; [apply (send_packet_any (fun s' => s' = s5)); reflexivity|].
+    intros r5 s5' e5 [-> _]. apply hp_set_mg.
+    destruct (mgr_disconnect_spec _ _ _ sid ns (mid_mg _ M5)) as (A & _).
+    split; [apply Mid_upd_mg; auto|]. cbn [upd_mg mg]. eapply mgr_disconnect_pending_one; eauto.
+  - eapply hp_conseq; [apply (send_packet_any (fun s' => s' = s4)); reflexivity|].
+    intros r5 s5' e5 [-> _]. apply hp_set_mg.
+    destruct (mgr_disconnect_spec _ _ _ sid ns (mid_mg _ M4)) as (A & _).
+    split; [apply Mid_upd_mg; auto|]. cbn [upd_mg mg]. apply mgr_disconnect_pending_nil; auto.
+Qed.
+
+Lemma Inv_binpkt_adel s e :
+  Inv s -> Inv (mkSrv (mg s) (environ s) (adel str_eqb (binpkt s) e) (sessions s) (live s) (fresh s)).
+Proof.
+  intros [[H1 H2 [H3 H3'] H4] Hp]. split; [|auto]. split; auto. cbn [binpkt live]. split.
+  - apply keys_ok_adel; auto.
+  - intros k Hk. apply In_adel_keys in Hk. auto.
+Qed.
+Lemma Inv_binpkt_aset s e r : In e (live s) ->
+  Inv s -> Inv (mkSrv (mg s) (environ s) (aset str_eqb (binpkt s) e r) (sessions s) (live s) (fresh s)).
+Proof.
+  intros He [[H1 H2 [H3 H3'] H4] Hp]. split; [|auto]. split; auto. cbn [binpkt live]. split.
+  - apply (xkeys_ok_aset _ str_eqb_eq); auto.
+  - intros k Hk. apply (xkeys_aset _ str_eqb_eq) in Hk as [Hk| ->]; auto.
+Qed.
+
+Lemma handle_eio_message_Inv c loads eio payload s :
+  cfg_ok c -> Inv s -> In eio (live s) ->
+  hp s (handle_eio_message c loads eio payload) (fun _ s' _ => Inv s').
+Proof.
+  intros Hc HI Hlive. unfold handle_eio_message. apply hp_getS_bind.
+  assert (Hev : forall pns id data s1, Inv s1 -> hp s1 (handle_event c eio pns id data) (fun _ s' _ => Inv s')).
+  { intros pns id data s1 H1. eapply hp_conseq; [apply handle_event_Inv; auto|]. intros ? ? ? [? _]. auto. }
+  assert (Hack : forall pns id data s1, Inv s1 -> hp s1 (handle_ack c eio pns id data) (fun _ s' _ => Inv s')).
+  { intros pns id data s1 H1. eapply hp_conseq; [apply handle_ack_Inv; auto|]. intros ? ? ? [? _]. auto. }
+  destruct (aget str_eqb (binpkt s) eio) as [r|].
+  - destruct (add_attachment r payload) as [[r' [|]]|x].
+    + apply hp_bind. unfold set_binpkt. apply hp_modify.
+      destruct (type_is (rp r') BINARY_EVENT); [apply Hev|apply Hack]; apply Inv_binpkt_adel; auto.
+    + unfold set_binpkt. apply hp_modify. apply Inv_binpkt_aset; auto.
+    + apply hp_bind. destruct (N.leb _ _).
+      * apply hp_ret. apply hp_raise. auto.
+      * unfold set_binpkt. apply hp_modify. apply hp_raise. apply Inv_binpkt_aset; auto.
+  - apply hp_bind. apply hp_lift.
+    destruct (if uses_binary c then decode loads payload else Err OtherError) as [r|x]; [|auto].
+    destruct (type_is (rp r) CONNECT); [apply handle_connect_Inv; auto|].
+    destruct (type_is (rp r) DISCONNECT).
+    { eapply hp_conseq; [apply handle_disconnect_spec; auto|]. intros ? ? ? P. apply (hd_inv _ _ _ _ P). }
+    destruct (type_is (rp r) EVENT); [apply Hev; auto|].
+    destruct (type_is (rp r) ACK); [apply Hack; auto|].
+    destruct (type_is (rp r) BINARY_EVENT || type_is (rp r) BINARY_ACK).
+    + unfold set_binpkt. apply hp_modify. apply Inv_binpkt_aset; auto.
+    + apply hp_raise. auto.
+Qed.
+
+(* ---- API operations ---- *)
+Definition op_ok (o : op) : Prop :=
+  match o with
+  | ApiEnterRoom _ room _ => room_ok room
+  | ApiLeaveRoom _ room _ => room <> PNone
+  | ApiCloseRoom room _ => room <> PNone
+  | _ => True
+  end.
+
+Lemma In_merge_members acc b s e : In (s, e) (merge_members acc b) -> In (s, e) acc \/ In (s, e) b.
+Proof.
+  unfold merge_members. revert acc. induction b as [|[s0 e0] b IH]; intros acc; cbn [fold_left]; [auto|].
+  intros H. destruct (IH _ H) as [H1|H1]; [|right; right; exact H1].
+  cbn [fst snd] in H1. apply In_aset in H1 as [H1|(-> & [(v0 & _ & _ & Hk)|(-> & _)])]; [auto| |].
+  - apply str_eqb_eq in Hk. subst. right; left; reflexivity.
+  - right; left; reflexivity.
+Qed.
+
+Lemma participants_members lv fr m ns room parts :
+  MInv lv fr m -> participants m ns room = Ok parts ->
+  forall s e, In (s, e) parts -> exists rm, ns_rooms m ns = Some rm /\ rmem rm PNone s e.
+Proof.
+  intros H Hp s e Hin.
+  assert (Hlook : forall r, In (s, e) (match room_of m ns r with Some b => b | None => [] end) ->
+                            exists rm, ns_rooms m ns = Some rm /\ rmem rm PNone s e).
+  { intros r Hl. unfold room_of in Hl. destruct (ns_rooms m ns) as [rm|] eqn:Hr; [|destruct Hl].
+    destruct (aget room_eqb rm r) as [b|] eqn:Hb; [|destruct Hl]. exists rm. split; [reflexivity|].
+    apply aget_In in Hb as (r' & Hin' & _). destruct (mi_ns _ _ _ H _ _ Hr) as [_ Hi].
+    apply (ri_sub _ _ _ Hi r'). exists b. auto. }
+  assert (Hfold : forall rs acc,
+             In (s, e) (fold_left (fun a r => merge_members a (match room_of m ns r with Some b => b | None => [] end)) rs acc) ->
+             In (s, e) acc \/ exists r, In (s, e) (match room_of m ns r with Some b => b | None => [] end)).
+  { induction rs as [|r1 rs IH]; intros acc; cbn [fold_left]; [auto|]. intros Hf.
+    destruct (IH _ Hf) as [H1|H1]; [|auto]. apply In_merge_members in H1 as [H1|H1]; eauto. }
+  unfold participants in Hp.
+  destruct room as [| | | | | |l|l| |]; try discriminate;
+    try (injection Hp as <-; eapply Hlook; eauto; fail).
+  - destruct l as [|r0 rs]; [discriminate|]. injection Hp as <-.
+    apply Hfold in Hin as [H1|[r H1]]; eapply Hlook; eauto.
+  - destruct l as [|r0 rs]; [discriminate|]. injection Hp as <-.
+    apply Hfold in Hin as [H1|[r H1]]; eapply Hlook; eauto.
+Qed.
+
+Lemma mgr_emit_Inv c ev data ns room skip cb : pres Inv anyeff (mgr_emit c ev data ns room skip cb).
+Proof.
+  destruct cb as [cbref|]; [|apply mgr_emit_nocb_pres; intros; exact I].
+  unfold mgr_emit. apply pres_getS_bind. intros s0 HI0.
+  destruct (ns_rooms (mg s0) ns) eqn:Hns; [|apply hp_ret; split; [auto|constructor]].
+  apply hp_bind. apply hp_lift. destruct (participants (mg s0) ns room) as [parts|x] eqn:Hparts; [|split; [auto|constructor]].
+  set (J := fun s' => Inv s' /\ rooms (mg s') = rooms (mg s0)).
+  assert (P : pres J anyeff
+     (forM parts (fun se =>
+        if skipped (skip_list skip) (fst se) then ret tt else
+        r <~ with_mg (fun m => generate_ack_id m (fst se) cbref) ;; id <~ lift r ;;
+        send_packet c (Some (snd se)) EVENT (PList (ev :: pack data)) ns (Some (Z.of_N id))))).
+  { apply pres_forM. intros [sd e] Hin. cbn [fst snd]. destruct (skipped _ _); [apply pres_ret|].
+    apply pres_bind.
+    - apply pres_with_mg. intros s [[HM Hp] Hr].
+      destruct (participants_members _ _ _ _ _ _ (mid_mg _ (proj1 HI0)) Hparts _ _ Hin) as (rm & Hrm & Hm).
+      assert (Hmem : exists ns' rm' e', ns_rooms (mg s) ns' = Some rm' /\ rmem rm' PNone sd e').
+      { exists ns, rm, e. split; [|auto]. unfold ns_rooms in *. rewrite Hr. auto. }
+      destruct (generate_ack_id_MInv _ _ _ sd cbref (mid_mg _ HM) Hmem) as (A & B & C).
+      split; [split|]; cbn [upd_mg mg]; try congruence. apply Mid_upd_mg; auto.
+    - intros rr. apply pres_bind; [apply pres_lift|]. intros id. apply send_packet_any. }
+  eapply hp_conseq; [apply P; split; auto|]. intros rr s' es [[A _] B]. auto.
+Qed.
+
+Lemma send_packet_disconnect_ok c eio ns s :
+  hp s (send_packet c eio DISCONNECT PNone ns None)
+     (fun r s' _ => s' = s /\ match r with Ok _ => True | Err _ => False end).
+Proof.
+  unfold send_packet, ctor. cbn [has_bytes]. rewrite andb_false_r.
+  apply hp_bind. apply hp_lift. apply hp_bind. apply hp_lift.
+  unfold encode. cbn [ptype pdata pns pid]. cbn.
+  destruct eio as [e|]; [|apply hp_ret; auto].
+  unfold hp. rewrite send_pieces_run. auto.
+Qed.
+
+Lemma api_disconnect_Inv c sid pns s :
+  cfg_ok c -> Inv s -> hp s (api_disconnect c sid pns) (fun _ s' _ => Inv s').
+Proof.
+  intros Hc [HM Hp]. unfold api_disconnect. set (ns := ns_or_default pns). apply hp_getS_bind.
+  destruct (is_connected (mg s) (Some sid) ns) eqn:Hcon; cbn [negb]; [|apply hp_ret; split; auto].
+  unfold is_connected in Hcon. destruct (is_pending (mg s) sid ns); [discriminate|].
+  fold (nroom (mg s) ns) in Hcon. destruct (nroom (mg s) ns) as [b|] eqn:Hn; [|discriminate].
+  destruct (bd_get b sid) as [e|] eqn:Hg; [|discriminate].
+  assert (Hin : In (sid, e) b) by (apply (xaget_In _ str_eqb_eq); exact Hg).
+  apply hp_bind. apply hp_with_mg. rewrite (pre_disconnect_run _ _ _ _ Hp Hn). cbn [fst snd].
+  apply hp_bind. apply hp_lift. cbn beta iota.
+  set (s1 := upd_mg s (mkMgr (rooms (mg s)) [(ns, [sid])] (callbacks (mg s)))).
+  assert (M1 : Mid s1).
+  { apply Mid_upd_mg; auto. apply (MInv_ext _ _ (mg s)); auto. apply (mid_mg _ HM). }
+  apply hp_bind. eapply hp_conseq; [apply (send_packet_disconnect_ok c (bd_get b sid) ns s1)|].
+  intros r1 s1' e1 [-> Hok].
+  assert (G : hp s1 (finallyM (_ <~ trigger_event c (PStr (s2l "disconnect")) ns [PStr sid; r_server_disconnect] ;; ret tt)
+                             (set_mg (fun m => mgr_disconnect m sid ns))) (fun _ s' _ => Inv s')).
+  { apply (disconnect_tail c _ ns sid e _ s1 b); auto. }
+  destruct r1 as [u|x]; [exact G|]. exfalso. exact Hok.
+Qed.
+
+Lemma hp_step c s o (Q : srv -> list eff -> Prop) :
+  hp s (step_m c o) (fun _ s' es => Q s' es) -> Q (fst (step c s o)) (snd (step c s o)).
+Proof. unfold hp, step. destruct (step_m c o s) as [[s' es] r]. auto. Qed.
+
+Lemma api_Inv (m : SM unit) s : hp s m (fun _ s' _ => Inv s') -> hp s (api m) (fun _ s' _ => Inv s').
+Proof. intros H. apply hp_api. eapply hp_conseq; [exact H|]. intros [u|x] s' es HI; exact HI. Qed.
+
+Theorem step_Inv c s o : cfg_ok c -> op_ok o -> Inv s -> Inv (fst (step c s o)).
+Proof.
+  intros Hc Ho HI. apply (hp_step c s o (fun s' _ => Inv s')).
+  destruct o as [eio env|eio payload tbl|eio reason|ev data to room skip ns cb|sid room ns|sid room ns|room ns
+                 |sid ns|sid ns|sid ns|sid v ns|sid ns k v]; cbn [step_m op_ok] in *.
+  - (* EioConnect *)
+    apply hp_modify. destruct HI as [[H1 [H2 H2'] [H3 H3'] [H4 H4']] Hp]. split; [|auto].
+    assert (Hsub : forall x, In x (live s) -> In x (live s ++ [eio])) by (intros; apply in_or_app; auto).
+    split; cbn [mg environ binpkt sessions live fresh].
+    + eapply MInv_mono; eauto. lia.
+    + split; [apply (xkeys_ok_aset _ str_eqb_eq); auto|]. intros k Hk.
+      apply (xkeys_aset _ str_eqb_eq) in Hk as [Hk| ->]; [auto|]. apply in_or_app. right. left. reflexivity.
+    + split; auto.
+    + split; auto.
+  - (* EioMessage *)
+    apply hp_getS_bind. destruct (existsb (str_eqb eio) (live s)) eqn:Ex; [|apply hp_ret; auto].
+    apply hp_contain. apply handle_eio_message_Inv; auto.
+    apply existsb_exists in Ex as (x & Hx & Hex). apply str_eqb_eq in Hex. subst. auto.
+  - (* EioClose *)
+    assert (G : Inv (fst (step c s (EioClose eio reason)))).
+    { destruct (in_dec (list_eq_dec N.eq_dec) eio (live s)) as [Hin|Hnin].
+      - apply (cp_inv _ _ _ (step_close_spec c s eio reason Hc HI Hin)).
+      - rewrite step_close_dead by auto. exact HI. }
+    unfold step in G. cbn [step_m] in G. unfold hp.
+    destruct ((s0 <~ getS ;; _) s) as [[s' es] r]. exact G.
+  - (* ApiEmit *)
+    apply api_Inv. unfold api_emit. eapply hp_conseq; [apply mgr_emit_Inv; auto|]. intros ? ? ? [? _]. auto.
+  - (* ApiEnterRoom *)
+    apply api_Inv. apply hp_bind. apply hp_with_mg. destruct HI as [HM Hp].
+    destruct (enter_room_spec _ _ _ sid (ns_or_default ns) room (mid_mg _ HM) Ho) as (A & B & C & D).
+    assert (G : Inv (upd_mg s (fst (enter_room (mg s) sid (ns_or_default ns) room)))).
+    { split; [apply Mid_upd_mg; auto|]. cbn [upd_mg mg]. congruence. }
+    destruct (snd (enter_room (mg s) sid (ns_or_default ns) room)); [apply hp_lift|]; exact G.
+  - (* ApiLeaveRoom *)
+    apply api_Inv. apply hp_set_mg. destruct HI as [HM Hp]. split.
+    + apply Mid_upd_mg; auto. apply MInv_leave_room; auto. apply (mid_mg _ HM).
+    + cbn [upd_mg mg]. rewrite leave_room_pending. auto.
+  - (* ApiCloseRoom *)
+    apply api_Inv. apply hp_set_mg. destruct HI as [HM Hp].
+    destruct (close_room_spec _ _ _ room (ns_or_default ns) (mid_mg _ HM) Ho) as (A & B & C & D). split.
+    + apply Mid_upd_mg; auto.
+    + cbn [upd_mg mg]. congruence.
+  - (* ApiRooms *)
+    apply hp_getS_bind. apply hp_tell. auto.
+  - (* ApiDisconnect *)
+    apply api_Inv. apply api_disconnect_Inv; auto.
+  - (* ApiGetSession *)
+    apply api_Inv. apply hp_bind. eapply hp_conseq; [apply api_get_session_frame; apply HI|].
+    intros [v|x] s' es [HM HF]; [apply hp_tell|]; eapply Inv_hstep; eauto.
+  - (* ApiSaveSession *)
+    apply api_Inv. eapply hp_conseq; [apply api_save_session_frame; apply HI|].
+    intros r s' es [HM HF]. eapply Inv_hstep; eauto.
+  - (* ApiSessionSet *)
+    apply api_Inv. apply hp_bind. eapply hp_conseq; [apply api_get_session_frame; apply HI|].
+    intros [d|x] s' es [HM HF]; [|eapply Inv_hstep; eauto].
+    assert (HI' : Inv s') by (eapply Inv_hstep; eauto).
+    eapply hp_conseq; [apply api_save_session_frame; apply HI'|].
+    intros r s'' es' [HM' HF']. eapply Inv_hstep; eauto.
+Qed.
+
+Lemma run_cons c s o ops :
+  run c s (o :: ops) = (fst (run c (fst (step c s o)) ops), snd (step c s o) :: snd (run c (fst (step c s o)) ops)).
+Proof. cbn [run]. destruct (step c s o) as [s1 e]. cbn [fst snd]. destruct (run c s1 ops). reflexivity. Qed.
+
+Theorem run_Inv c ops : cfg_ok c -> Forall op_ok ops -> forall s, Inv s -> Inv (fst (run c s ops)).
+Proof.
+  intros Hc Hops. induction Hops as [|o ops Ho _ IH]; intros s HI; [exact HI|].
+  rewrite run_cons. cbn [fst]. apply IH. apply step_Inv; auto.
 Qed.
